@@ -1,41 +1,53 @@
 //! C08 — collections are lazy, immutable and re-runnable; branches do not interfere.
 //!
-//! Real side: 1..5 REAL OS threads share one `Pipeline` and execute small programs (new source / derive:
-//! `map`, `filter`, `group_by_key`, `combine_values`, `combine_values_lifted`, `combine_globally` / join of
-//! the four kinds / collect in either mode / `set_metrics` / `take_metrics`). A cooperative scheduler (installed through `verif_hooks::set_yield_callback`; every
-//! `Pipeline` method yields right before taking the lock, and every operation yields once at its `begin`)
-//! lets exactly one thread run from one yield point to the next, following a *schedule* (list of thread
-//! ids). So an interleaving at lock granularity is replayable and can be ENUMERATED.
+//! Real side: 1..5 REAL OS threads share one `Pipeline` and execute small programs: new source (`from_vec`,
+//! `from_custom_source` with a user `VecOps`, `read_jsonl_streaming` / `read_csv_streaming` over a temp file) /
+//! derive through EVERY builder copy that is one `insert_node` + one `connect` (`map`, `filter`, `flat_map`,
+//! `map_batches`, `apply_transform`, a debug tap, `map_values`, `filter_values`, `map_values_batches`,
+//! `group_by_key`, `combine_values`, `combine_values_lifted`, `combine_globally`, `combine_globally_lifted`) / join of
+//! the four kinds / collect through every entry point (`collect_seq`, `collect_par` with partitions or threads,
+//! `collect`, `collect_*_sorted`, a `Runner` with checkpointing) / `set_metrics` / `take_metrics` / `get_metrics`.
+//! A cooperative scheduler (installed through `verif_hooks::set_yield_callback`; every `Pipeline` method yields right
+//! before taking the lock, every operation yields once at its `begin`, and — in the FINE blocks — a run yields between
+//! the nodes of its chain, site `runner:stage`) lets exactly one thread run from one yield point to the next,
+//! following a *schedule* (list of thread ids). So an interleaving at lock granularity is replayable and can be
+//! ENUMERATED, and two executions can be interleaved node by node.
 //!
 //! Request  `GRAPH <n> <prog_0> … <prog_{n-1}> <schedule>`  (see lean/IbModel/Driver/D08.lean for the syntax)
-//! Answer   `n=<#nodes> N=<id>:<kind>,… E=<from>-<to>,… T=<per step: thread, lock site, #nodes.#edges after it> U=<user-function calls> t0=<outcomes> …`
-//!          from the real `snapshot()`, the real lock-site trace, the real call counters of every user closure /
-//!          `CombineFn::add_input`, the real node ids and the real collect results.
+//! Answer   `n=<#nodes> N=<id>:<kind>,… E=<from>-<to>,… T=<per lock step: thread, lock site, #nodes.#edges after it> U=<user-function calls> t0=<outcomes> …`
+//!          from the real `snapshot()`, the real lock-site trace (stage yields are not lock steps and are left out),
+//!          the real call counters of every user function, the real node ids and the real collect results.
 //! The Lean model replays the same linearisation; the answers must be byte-identical.
 //!
 //! Request  `GINV <#nodes> <ids> <edges>`: a snapshot of the real graph after a FREE-RUNNING (no scheduler,
-//! truly concurrent) build; the model evaluates its graph invariant on it, the harness its own.
+//! truly concurrent) history; the model evaluates its graph invariant on it, the harness its own.
 //!
-//! Oracle (independent of the model, of snapshots, ids and the back-walk): every handle carries its
-//! creation-time lineage as a plain Rust expression tree (`Lin`); every collect must equal `eval(lin)`;
-//! every user function (map/filter closure, `CombineFn::add_input` of the per-key / lifted / global
-//! combiners) has its own call counter whose final value must equal the number of rows the lineage
-//! evaluations of the collects that contain it feed to it (so: 0 calls from building; no calls from
-//! collects of other branches; no second run of a barrier); node ids pairwise distinct, none lost; edges
-//! old→young, in-degree ≤ 1; `take_metrics` answers follow the order of the metrics critical sections.
+//! Oracle (independent of the model, of snapshots, ids and the back-walk): every handle carries its creation-time
+//! lineage as a plain Rust expression tree (`Lin`); every collect must equal `eval(lin)` (as a multiset; as a SEQUENCE
+//! for lineages without a barrier, whose order is fixed by the source); no user function (closure, `DynOp`, inspector,
+//! any `CombineFn` method) runs during a step of a build operation, a builder returns with its own function uncalled,
+//! a build-only history makes no call at all; node ids pairwise distinct, none lost; edges between existing nodes,
+//! in-degree ≤ 1; `take_metrics` / `get_metrics` answers follow the order of the metrics critical sections.
+//! How OFTEN a collect calls a user function is not part of the property (an engine may memoise or re-execute); it is
+//! compared with the model's prediction in the `U=` field only.
 //!
-//! Small-scope blocks: (2a) every ordered pair of single operations, ALL interleavings; (2b) every pair of
-//! programs of up to 3 (quick: 2) operations over per-thread alphabets, one schedule per Mazurkiewicz trace
-//! under the dependence relation `dependent` (partial-order reduction, sleep sets); (2c) hand-picked pairs.
+//! Wall-clock never decides a verdict: a scheduler step that does not come back within 30 s gets a grace period
+//! (a stall is counted in a note); a history that is still stuck is re-executed from scratch with a 600 s limit, and
+//! only a history that hangs twice is reported (`hang`).
 
 use crate::ctx::{Ctx, Tier, guarded};
 use ironbeam::collection::{CombineFn, LiftableCombiner};
-use ironbeam::node::Node;
-use ironbeam::{PCollection, Pipeline, from_vec};
+use ironbeam::node::{DynOp, Node};
+use ironbeam::testing::PCollectionDebugExt;
+use ironbeam::type_token::{Partition, VecOps};
+use ironbeam::{ExecMode, PCollection, Pipeline, Runner, from_custom_source, from_vec, read_csv_streaming, read_jsonl_streaming};
+use std::any::Any;
 use std::cell::RefCell;
-use std::sync::atomic::{AtomicU64, Ordering};
-use std::sync::{Arc, Condvar, Mutex};
-use std::time::Duration;
+use std::marker::PhantomData;
+use std::path::PathBuf;
+use std::sync::atomic::{AtomicBool, AtomicU64, AtomicUsize, Ordering};
+use std::sync::{Arc, Condvar, Mutex, OnceLock};
+use std::time::{Duration, Instant};
 
 // ---------------------------------------------------------------------------------------------
 // programs
@@ -43,24 +55,43 @@ use std::time::Duration;
 #[derive(Clone, Copy, Debug, PartialEq)]
 enum Ref { Front(usize), Back(usize), Mine(usize) }
 
+/// user functions of the stateless builders that exist for every element type
 #[derive(Clone, Copy, Debug, PartialEq)]
-enum F { Add(i64), Mul(i64), Rekey(i64), Drop(i64, i64) }
+enum F {
+    Add(i64), Mul(i64), Rekey(i64), Drop(i64, i64), // map, map, map, filter
+    Flat(i64),                                      // flat_map
+    Batch(usize, i64),                              // map_batches(size, v+n)
+    Xform(i64),                                     // apply_transform(custom DynOp, v+n)
+    Tap,                                            // debug_inspect_with (identity; the inspector is a user function)
+}
+
+/// user functions of the value-only builders of `(k,v)` collections (a commuting family: odd factors keep parity)
+#[derive(Clone, Copy, Debug, PartialEq)]
+enum VF { Mul(i64), Fil(i64), Bat(usize, i64) } // map_values(v*c), filter_values(v mod 2 != r), map_values_batches(size, v*c)
 
 #[derive(Clone, Copy, Debug, PartialEq)]
 enum JK { Inner, Left, Right, Full }
 
+#[derive(Clone, Copy, Debug, PartialEq)]
+enum SrcKind { Vec, Custom, Jsonl(usize), Csv(usize) }
+
+#[derive(Clone, Copy, Debug, PartialEq)]
+enum Mode { Seq, Par(usize), Plain, SeqSorted, ParSorted(usize), Threads(usize), CkSeq, CkPar(usize) }
+
 #[derive(Clone, Debug, PartialEq)]
 enum Op {
-    Source(Vec<(i64, i64)>),
-    Derive(Ref, F),                     // map / filter, any element type
+    Source(SrcKind, Vec<(i64, i64)>),
+    Derive(Ref, F),                     // any element type
+    ValOp(Ref, VF),                     // (k,v) -> (k,v)
     Group(Ref),                         // group_by_key                (k,v) -> (k,Vec v)
     CombV(Ref, i64),                    // combine_values(sum+bias)    (k,v) -> (k,v)
     CombL(Ref, i64),                    // combine_values_lifted(..)   (k,Vec v) -> (k,v)
-    CombG(Ref, i64, Option<usize>),     // combine_globally(.., fanout) (k,v) -> one (k,v)
+    CombG(Ref, i64, Option<usize>, bool), // combine_globally[_lifted](.., fanout) (k,v) -> one (k,v)
     Join(JK, Ref, Ref),
-    Collect(Ref, Option<usize>), // None = collect_seq, Some(p) = collect_par(None, Some(p))
+    Collect(Ref, Mode),
     SetM,                               // Pipeline::set_metrics
     TakeM,                              // Pipeline::take_metrics
+    GetM,                               // Pipeline::get_metrics
 }
 
 fn enc_ref(r: Ref) -> String {
@@ -70,37 +101,53 @@ fn enc_f(f: F) -> String {
     match f {
         F::Add(n) => format!("a{n}"), F::Mul(n) => format!("m{n}"),
         F::Rekey(m) => format!("k{m}"), F::Drop(m, r) => format!("f{m}.{r}"),
+        F::Flat(n) => format!("x{n}"), F::Batch(s, n) => format!("B{s}.{n}"), F::Xform(n) => format!("T{n}"), F::Tap => "i0".into(),
+    }
+}
+fn enc_vf(f: VF) -> String {
+    match f { VF::Mul(c) => format!("m{c}"), VF::Fil(r) => format!("f{r}"), VF::Bat(s, c) => format!("b{s}.{c}") }
+}
+fn enc_rows(rows: &[(i64, i64)]) -> String { rows.iter().map(|(k, v)| format!("{k}.{v}")).collect::<Vec<_>>().join("_") }
+fn enc_mode(m: Mode) -> String {
+    match m {
+        Mode::Seq => "s".into(), Mode::Par(p) => format!("p{p}"), Mode::Plain => "c".into(), Mode::SeqSorted => "o".into(),
+        Mode::ParSorted(p) => format!("q{p}"), Mode::Threads(t) => format!("t{t}"), Mode::CkSeq => "k".into(), Mode::CkPar(p) => format!("K{p}"),
     }
 }
 fn enc_op(op: &Op) -> String {
     match op {
-        Op::Source(rows) => format!("S{}", rows.iter().map(|(k, v)| format!("{k}.{v}")).collect::<Vec<_>>().join("_")),
+        Op::Source(SrcKind::Vec, rows) => format!("S{}", enc_rows(rows)),
+        Op::Source(SrcKind::Custom, rows) => format!("U{}", enc_rows(rows)),
+        Op::Source(SrcKind::Jsonl(n), rows) => format!("R{n}/{}", enc_rows(rows)),
+        Op::Source(SrcKind::Csv(n), rows) => format!("X{n}/{}", enc_rows(rows)),
         Op::Derive(r, f) => format!("D{}/{}", enc_ref(*r), enc_f(*f)),
+        Op::ValOp(r, f) => format!("W{}/{}", enc_ref(*r), enc_vf(*f)),
         Op::Group(r) => format!("G{}", enc_ref(*r)),
         Op::CombV(r, b) => format!("V{}/{b}", enc_ref(*r)),
         Op::CombL(r, b) => format!("L{}/{b}", enc_ref(*r)),
-        Op::CombG(r, b, fo) => format!("A{}/{b}/{}", enc_ref(*r), fo.map_or("n".to_string(), |x| x.to_string())),
+        Op::CombG(r, b, fo, lifted) => format!("{}{}/{b}/{}", if *lifted { 'Q' } else { 'A' }, enc_ref(*r), fo.map_or("n".to_string(), |x| x.to_string())),
         Op::Join(k, l, r) => format!("J{}{}/{}", match k { JK::Inner => 'i', JK::Left => 'l', JK::Right => 'r', JK::Full => 'f' }, enc_ref(*l), enc_ref(*r)),
-        Op::Collect(r, None) => format!("C{}/s", enc_ref(*r)),
-        Op::Collect(r, Some(p)) => format!("C{}/p{p}", enc_ref(*r)),
+        Op::Collect(r, m) => format!("C{}/{}", enc_ref(*r), enc_mode(*m)),
         Op::SetM => "M+".into(),
         Op::TakeM => "M-".into(),
+        Op::GetM => "M?".into(),
     }
 }
 fn enc_prog(p: &[Op]) -> String {
     if p.is_empty() { "-".into() } else { p.iter().map(enc_op).collect::<Vec<_>>().join(";") }
 }
-/// kinds of the atomic steps of an operation when its handles resolve: b = begin (harness), i = insert_node,
+/// kinds of the LOCK steps of an operation when its handles resolve: b = begin (harness), i = insert_node,
 /// I = insert_node after which the builder returns (handle published), c = connect (+ publication),
-/// s = snapshot, m/e = record_metrics_start/end, M/K = set/take_metrics
+/// s = snapshot, m/e = record_metrics_start/end, M/K/g = set/take/get_metrics
 fn op_kinds(op: &Op) -> &'static str {
     match op {
-        Op::Source(_) => "bI",
-        Op::Derive(..) | Op::Group(_) | Op::CombV(..) | Op::CombL(..) | Op::CombG(..) => "bic",
+        Op::Source(..) => "bI",
+        Op::Derive(..) | Op::ValOp(..) | Op::Group(_) | Op::CombV(..) | Op::CombL(..) | Op::CombG(..) => "bic",
         Op::Join(..) => "bssiic",
         Op::Collect(..) => "bmse",
         Op::SetM => "bM",
         Op::TakeM => "bK",
+        Op::GetM => "bg",
     }
 }
 fn op_steps(op: &Op) -> usize { op_kinds(op).len() }
@@ -122,81 +169,83 @@ impl Cell {
     fn vals(&self) -> Vec<i64> { match self { Cell::Val(v) => vec![*v], Cell::List(l) => l.clone(), _ => vec![] } }
 }
 
-/// user-function counters of one lineage node
-struct Cnt { actual: Arc<AtomicU64>, expected: AtomicU64 }
-impl Cnt { fn new() -> Cnt { Cnt { actual: Arc::new(AtomicU64::new(0)), expected: AtomicU64::new(0) } } }
-
 enum Lin {
     Src(Vec<(i64, i64)>),
-    Map { parent: Arc<Lin>, f: F, cnt: Cnt },
+    Map { parent: Arc<Lin>, f: F },
+    Val { parent: Arc<Lin>, f: VF },
     Group(Arc<Lin>),
-    CombV { parent: Arc<Lin>, bias: i64, cnt: Cnt }, // on pairs and (lifted) on groups: per key, sum of all values + bias
-    CombG { parent: Arc<Lin>, bias: i64, cnt: Cnt },
+    CombV { parent: Arc<Lin>, bias: i64 }, // on pairs and (lifted) on groups: per key, sum of all values + bias
+    CombG { parent: Arc<Lin>, bias: i64 },
     Join(JK, Arc<Lin>, Arc<Lin>),
 }
 impl Lin {
-    fn cnt(&self) -> Option<(&Cnt, String)> {
+    /// no barrier / join anywhere: the element ORDER is fixed by the source and the stateless functions
+    fn ordered(&self) -> bool {
         match self {
-            Lin::Map { cnt, f, .. } => Some((cnt, format!("closure {f:?}"))),
-            Lin::CombV { cnt, bias, .. } => Some((cnt, format!("combine_values add_input (bias {bias})"))),
-            Lin::CombG { cnt, bias, .. } => Some((cnt, format!("combine_globally add_input (bias {bias})"))),
-            _ => None,
+            Lin::Src(_) => true,
+            Lin::Map { parent, .. } | Lin::Val { parent, .. } => parent.ordered(),
+            _ => false,
         }
     }
 }
 
-/// the user function of map/filter, on the common row view (pv = the value, or the sum of a group)
-fn apply_f(f: F, r: &Row) -> Option<Row> {
+/// the user function of a stateless builder, on the common row view (pv = the value, or the sum of a group)
+fn apply_f(f: F, r: &Row) -> Vec<Row> {
     let (k, v, w) = r;
     match f {
-        F::Add(n) => Some((*k, v.mapv(|x| x + n), w.clone())),
-        F::Mul(n) => Some((*k, v.mapv(|x| x * n), w.clone())),
-        F::Rekey(m) => Some(((k + v.pv()).rem_euclid(m), v.clone(), w.clone())),
-        F::Drop(m, r) => if v.pv().rem_euclid(m) != r { Some((*k, v.clone(), w.clone())) } else { None },
+        F::Add(n) | F::Batch(_, n) | F::Xform(n) => vec![(*k, v.mapv(|x| x + n), w.clone())],
+        F::Mul(n) => vec![(*k, v.mapv(|x| x * n), w.clone())],
+        F::Rekey(m) => vec![((k + v.pv()).rem_euclid(m), v.clone(), w.clone())],
+        F::Drop(m, q) => if v.pv().rem_euclid(m) != q { vec![r.clone()] } else { vec![] },
+        F::Flat(n) => match v.pv().rem_euclid(3) {
+            0 => vec![],
+            1 => vec![r.clone()],
+            _ => vec![r.clone(), (*k, v.mapv(|x| x + n), w.clone())],
+        },
+        F::Tap => vec![r.clone()],
+    }
+}
+fn apply_vf(f: VF, v: i64) -> Option<i64> {
+    match f {
+        VF::Mul(c) | VF::Bat(_, c) => Some(v * c),
+        VF::Fil(q) => if v.rem_euclid(2) != q { Some(v) } else { None },
     }
 }
 
 fn keys_of(rows: &[Row]) -> Vec<i64> {
+    let mut seen = std::collections::HashSet::new();
     let mut ks: Vec<i64> = vec![];
-    for r in rows { if !ks.contains(&r.0) { ks.push(r.0); } }
+    for r in rows { if seen.insert(r.0) { ks.push(r.0); } }
     ks
 }
 
-/// plain-Rust evaluation of a lineage; `count` = also account the user-function calls this evaluation implies
-fn eval(l: &Lin, count: bool) -> Vec<Row> {
+/// plain-Rust evaluation of a lineage
+fn eval(l: &Lin) -> Vec<Row> {
     match l {
         Lin::Src(rows) => rows.iter().map(|(k, v)| (*k, Cell::Val(*v), Cell::Absent)).collect(),
-        Lin::Map { parent, f, cnt } => {
-            let input = eval(parent, count);
-            if count { cnt.expected.fetch_add(input.len() as u64, Ordering::SeqCst); }
-            input.iter().filter_map(|r| apply_f(*f, r)).collect()
-        }
+        Lin::Map { parent, f } => eval(parent).iter().flat_map(|r| apply_f(*f, r)).collect(),
+        Lin::Val { parent, f } => eval(parent).iter().filter_map(|r| apply_vf(*f, r.1.pv()).map(|v| (r.0, Cell::Val(v), Cell::Absent))).collect(),
         Lin::Group(parent) => {
-            let input = eval(parent, count);
-            keys_of(&input).into_iter().map(|k| {
-                let vs: Vec<i64> = input.iter().filter(|r| r.0 == k).flat_map(|r| r.1.vals()).collect();
-                (k, Cell::List(vs), Cell::Absent)
-            }).collect()
+            let input = eval(parent);
+            let mut by: std::collections::HashMap<i64, Vec<i64>> = std::collections::HashMap::new();
+            for r in &input { by.entry(r.0).or_default().extend(r.1.vals()); }
+            keys_of(&input).into_iter().map(|k| (k, Cell::List(by.remove(&k).unwrap_or_default()), Cell::Absent)).collect()
         }
-        Lin::CombV { parent, bias, cnt } => {
-            let input = eval(parent, count);
-            // add_input runs once per value (per pair, or per member of a group)
-            if count { cnt.expected.fetch_add(input.iter().map(|r| r.1.vals().len() as u64).sum(), Ordering::SeqCst); }
-            keys_of(&input).into_iter().map(|k| {
-                let s: i64 = input.iter().filter(|r| r.0 == k).map(|r| r.1.pv()).sum();
-                (k, Cell::Val(s + bias), Cell::Absent)
-            }).collect()
+        Lin::CombV { parent, bias } => {
+            let input = eval(parent);
+            let mut by: std::collections::HashMap<i64, i64> = std::collections::HashMap::new();
+            for r in &input { *by.entry(r.0).or_default() += r.1.pv(); }
+            keys_of(&input).into_iter().map(|k| (k, Cell::Val(by[&k] + bias), Cell::Absent)).collect()
         }
-        Lin::CombG { parent, bias, cnt } => {
-            let input = eval(parent, count);
-            if count { cnt.expected.fetch_add(input.len() as u64, Ordering::SeqCst); }
+        Lin::CombG { parent, bias } => {
+            let input = eval(parent);
             let sk: i64 = input.iter().map(|r| r.0).sum();
             let sv: i64 = input.iter().map(|r| r.1.pv()).sum();
             vec![(sk.rem_euclid(2), Cell::Val(sv + bias), Cell::Absent)]
         }
         Lin::Join(kind, a, b) => {
-            let l = eval(a, count);
-            let r = eval(b, count);
+            let l = eval(a);
+            let r = eval(b);
             let mut out = vec![];
             for x in &l {
                 let mut hit = false;
@@ -223,16 +272,20 @@ fn show_cell(c: &Cell) -> String {
         Cell::List(l) => { let mut l = l.clone(); l.sort(); format!("g{}", l.iter().map(|x| x.to_string()).collect::<Vec<_>>().join("+")) }
     }
 }
-/// canonical form: every row rendered, the rendered rows sorted bytewise
-fn show_rows(rows: Vec<Row>) -> String {
-    if rows.is_empty() { return "-".into(); }
-    let mut v: Vec<String> = rows.iter().map(|(k, a, b)| match b {
+/// every row rendered, in the given order
+fn render_rows(rows: &[Row]) -> Vec<String> {
+    rows.iter().map(|(k, a, b)| match b {
         Cell::Absent => format!("{k}.{}", show_cell(a)),
         _ => format!("{k}.{}.{}", show_cell(a), show_cell(b)),
-    }).collect();
+    }).collect()
+}
+/// canonical form: the rendered rows sorted bytewise
+fn show_sorted(mut v: Vec<String>) -> String {
+    if v.is_empty() { return "-".into(); }
     v.sort();
     v.join("_")
 }
+fn show_rows(rows: Vec<Row>) -> String { show_sorted(render_rows(&rows)) }
 
 // ---------------------------------------------------------------------------------------------
 // handles on the real pipeline
@@ -248,7 +301,7 @@ fn oc(x: Option<i64>) -> Cell { x.map_or(Cell::Null, Cell::Val) }
 fn co(c: &Cell) -> Option<i64> { match c { Cell::Val(v) => Some(*v), _ => None } }
 
 /// the element types of the real collections, seen as the oracle's rows
-trait RowT: Clone + Send + Sync + 'static {
+trait RowT: Clone + Send + Sync + Ord + std::fmt::Debug + 'static {
     fn to_row(&self) -> Row;
     fn from_row(r: &Row) -> Self;
 }
@@ -303,12 +356,28 @@ fn resolve_cls(pool: &[Handle], own: &[Handle], class: usize, r: Ref) -> Option<
 struct World {
     pipeline: Pipeline,
     pool: Mutex<Vec<Handle>>,
-    /// every lineage node that holds a user function (closure / CombineFn) with its call counters
-    closures: Mutex<Vec<Arc<Lin>>>,
+    /// calls of stateless user functions (per ELEMENT seen) and of `CombineFn::add_input`: the `U=` field
+    calls: Arc<AtomicU64>,
+    /// calls of `CombineFn::{create, merge, finish}` (depend on the partitioning; only "none while building" is checked)
+    aux: Arc<AtomicU64>,
+    /// reads of the user `VecOps` of custom sources (statistics)
+    src_reads: Arc<AtomicU64>,
+    ckdir: PathBuf,
+    /// builders that returned with their own user function already called
+    eager: Mutex<Vec<String>>,
+}
+
+/// call counter of ONE user function (its own count, and the world's totals)
+#[derive(Clone)]
+struct Tick { own: Arc<AtomicU64>, calls: Arc<AtomicU64>, aux: Arc<AtomicU64> }
+impl Tick {
+    fn new(w: &World) -> Tick { Tick { own: Arc::new(AtomicU64::new(0)), calls: w.calls.clone(), aux: w.aux.clone() } }
+    fn hit(&self, n: usize) { self.own.fetch_add(n as u64, Ordering::SeqCst); self.calls.fetch_add(n as u64, Ordering::SeqCst); }
+    fn side(&self) { self.own.fetch_add(1, Ordering::SeqCst); self.aux.fetch_add(1, Ordering::SeqCst); }
 }
 
 #[derive(Clone, Debug)]
-enum Outcome { Built(u64), Collected(u64, String), Skipped, Panicked, MSet, MTaken(bool) }
+enum Outcome { Built(u64), Collected(u64, String), Skipped, Panicked, MSet, MTaken(bool), MGot(bool) }
 
 fn show_outcome(o: &Outcome) -> String {
     match o {
@@ -318,59 +387,144 @@ fn show_outcome(o: &Outcome) -> String {
         Outcome::Panicked => "P".into(),
         Outcome::MSet => "M".into(),
         Outcome::MTaken(b) => if *b { "M1".into() } else { "M0".into() },
+        Outcome::MGot(b) => if *b { "M?1".into() } else { "M?0".into() },
     }
 }
 
-/// user combiners (their `add_input` is counted as the user-function call)
-struct SumC { bias: i64, calls: Arc<AtomicU64> }
+/// user combiners: EVERY method is a user function (add_input is the per-element one)
+struct SumC { bias: i64, tick: Tick }
 impl CombineFn<i64, i64, i64> for SumC {
-    fn create(&self) -> i64 { 0 }
-    fn add_input(&self, acc: &mut i64, v: i64) { self.calls.fetch_add(1, Ordering::SeqCst); *acc += v; }
-    fn merge(&self, acc: &mut i64, other: i64) { *acc += other; }
-    fn finish(&self, acc: i64) -> i64 { acc + self.bias }
+    fn create(&self) -> i64 { self.tick.side(); 0 }
+    fn add_input(&self, acc: &mut i64, v: i64) { self.tick.hit(1); *acc += v; }
+    fn merge(&self, acc: &mut i64, other: i64) { self.tick.side(); *acc += other; }
+    fn finish(&self, acc: i64) -> i64 { self.tick.side(); acc + self.bias }
 }
 impl LiftableCombiner<i64, i64, i64> for SumC {}
-struct SumKV { bias: i64, calls: Arc<AtomicU64> }
+struct SumKV { bias: i64, tick: Tick }
 impl CombineFn<KV, KV, KV> for SumKV {
-    fn create(&self) -> KV { (0, 0) }
-    fn add_input(&self, acc: &mut KV, v: KV) { self.calls.fetch_add(1, Ordering::SeqCst); acc.0 += v.0; acc.1 += v.1; }
-    fn merge(&self, acc: &mut KV, other: KV) { acc.0 += other.0; acc.1 += other.1; }
-    fn finish(&self, acc: KV) -> KV { (acc.0.rem_euclid(2), acc.1 + self.bias) }
+    fn create(&self) -> KV { self.tick.side(); (0, 0) }
+    fn add_input(&self, acc: &mut KV, v: KV) { self.tick.hit(1); acc.0 += v.0; acc.1 += v.1; }
+    fn merge(&self, acc: &mut KV, other: KV) { self.tick.side(); acc.0 += other.0; acc.1 += other.1; }
+    fn finish(&self, acc: KV) -> KV { self.tick.side(); (acc.0.rem_euclid(2), acc.1 + self.bias) }
+}
+impl LiftableCombiner<KV, KV, KV> for SumKV {}
+
+/// a user `DynOp` for `apply_transform`
+struct XformOp<T> { f: F, tick: Tick, _t: PhantomData<fn() -> T> }
+impl<T: RowT> DynOp for XformOp<T> {
+    fn apply(&self, input: Partition) -> Partition {
+        let v = *input.downcast::<Vec<T>>().expect("XformOp: expected Vec<T>");
+        self.tick.hit(v.len());
+        let out: Vec<T> = v.iter().map(|x| T::from_row(&apply_f(self.f, &x.to_row())[0])).collect();
+        Box::new(out) as Partition
+    }
+}
+
+/// a user source: its own payload type and its own `VecOps` (reads are counted)
+struct CustomPayload { rows: Vec<KV>, reads: Arc<AtomicU64> }
+struct CustomOps;
+impl VecOps for CustomOps {
+    fn len(&self, data: &dyn Any) -> Option<usize> { data.downcast_ref::<CustomPayload>().map(|p| p.rows.len()) }
+    fn split(&self, data: &dyn Any, n: usize) -> Option<Vec<Partition>> {
+        let p = data.downcast_ref::<CustomPayload>()?;
+        p.reads.fetch_add(1, Ordering::SeqCst);
+        if n <= 1 || p.rows.len() <= 1 { return Some(vec![Box::new(p.rows.clone()) as Partition]); }
+        let chunk = p.rows.len().div_ceil(n);
+        Some(p.rows.chunks(chunk).map(|c| Box::new(c.to_vec()) as Partition).collect())
+    }
+    fn clone_any(&self, data: &dyn Any) -> Option<Partition> {
+        let p = data.downcast_ref::<CustomPayload>()?;
+        p.reads.fetch_add(1, Ordering::SeqCst);
+        Some(Box::new(p.rows.clone()) as Partition)
+    }
+}
+
+/// scratch directory of this harness process (data files of the streaming sources, checkpoint directories)
+fn scratch() -> &'static PathBuf {
+    static DIR: OnceLock<PathBuf> = OnceLock::new();
+    DIR.get_or_init(|| {
+        let d = std::env::temp_dir().join(format!("ibh-c08-{}", std::process::id()));
+        let _ = std::fs::remove_dir_all(&d);
+        std::fs::create_dir_all(&d).expect("scratch dir");
+        d
+    })
+}
+/// the file holding `rows` in the given format (written once per content)
+fn data_file(ext: &str, rows: &[KV]) -> PathBuf {
+    static LOCK: Mutex<()> = Mutex::new(());
+    let mut h: u64 = 0xcbf2_9ce4_8422_2325;
+    for (k, v) in rows { for b in k.to_le_bytes().iter().chain(v.to_le_bytes().iter()) { h = (h ^ *b as u64).wrapping_mul(0x100_0000_01b3); } }
+    let path = scratch().join(format!("d{:016x}_{}.{ext}", h, rows.len()));
+    let _g = LOCK.lock().unwrap_or_else(|e| e.into_inner());
+    if !path.exists() {
+        let mut s = String::new();
+        for (k, v) in rows { if ext == "jsonl" { s.push_str(&format!("[{k},{v}]\n")); } else { s.push_str(&format!("{k},{v}\n")); } }
+        std::fs::write(&path, s).expect("write data file");
+    }
+    path
 }
 
 /// the REAL builder / collect calls
-fn derive_t<T: RowT>(c: &PCollection<T>, f: F, actual: Arc<AtomicU64>) -> PCollection<T> {
+fn derive_t<T: RowT>(c: &PCollection<T>, f: F, tick: Tick) -> PCollection<T> {
     match f {
-        F::Drop(..) => c.clone().filter(move |x: &T| {
-            actual.fetch_add(1, Ordering::SeqCst);
-            apply_f(f, &x.to_row()).is_some()
+        F::Drop(..) => c.clone().filter(move |x: &T| { tick.hit(1); !apply_f(f, &x.to_row()).is_empty() }),
+        F::Add(_) | F::Mul(_) | F::Rekey(_) => c.clone().map(move |x: &T| { tick.hit(1); T::from_row(&apply_f(f, &x.to_row())[0]) }),
+        F::Flat(_) => c.clone().flat_map(move |x: &T| { tick.hit(1); apply_f(f, &x.to_row()).iter().map(T::from_row).collect::<Vec<T>>() }),
+        F::Batch(size, _) => c.clone().map_batches(size, move |xs: &[T]| {
+            tick.hit(xs.len());
+            xs.iter().map(|x| T::from_row(&apply_f(f, &x.to_row())[0])).collect::<Vec<T>>()
         }),
-        _ => c.clone().map(move |x: &T| {
-            actual.fetch_add(1, Ordering::SeqCst);
-            T::from_row(&apply_f(f, &x.to_row()).unwrap())
-        }),
+        F::Xform(_) => c.apply_transform::<T>(Arc::new(XformOp::<T> { f, tick, _t: PhantomData })),
+        F::Tap => c.debug_inspect_with("c08", move |_x: &T| tick.hit(1)),
     }
 }
-fn derive_real(h: &Handle, f: F, actual: Arc<AtomicU64>) -> Coll {
+fn derive_real(h: &Handle, f: F, tick: Tick) -> Coll {
     match &h.coll {
-        Coll::KV(c) => Coll::KV(derive_t(c, f, actual)),
-        Coll::JI(c) => Coll::JI(derive_t(c, f, actual)),
-        Coll::JL(c) => Coll::JL(derive_t(c, f, actual)),
-        Coll::JR(c) => Coll::JR(derive_t(c, f, actual)),
-        Coll::JF(c) => Coll::JF(derive_t(c, f, actual)),
-        Coll::G(c) => Coll::G(derive_t(c, f, actual)),
+        Coll::KV(c) => Coll::KV(derive_t(c, f, tick)),
+        Coll::JI(c) => Coll::JI(derive_t(c, f, tick)),
+        Coll::JL(c) => Coll::JL(derive_t(c, f, tick)),
+        Coll::JR(c) => Coll::JR(derive_t(c, f, tick)),
+        Coll::JF(c) => Coll::JF(derive_t(c, f, tick)),
+        Coll::G(c) => Coll::G(derive_t(c, f, tick)),
     }
 }
-fn collect_t<T: RowT>(c: &PCollection<T>, mode: Option<usize>) -> Result<Vec<Row>, String> {
-    let r = match mode { None => c.clone().collect_seq(), Some(p) => c.clone().collect_par(None, Some(p)) };
+fn valop_real(c: &PCollection<KV>, f: VF, tick: Tick) -> PCollection<KV> {
+    match f {
+        VF::Mul(_) => c.clone().map_values(move |v: &i64| { tick.hit(1); apply_vf(f, *v).unwrap() }),
+        VF::Fil(_) => c.clone().filter_values(move |v: &i64| { tick.hit(1); apply_vf(f, *v).is_some() }),
+        VF::Bat(size, _) => c.clone().map_values_batches(size, move |vs: &[i64]| {
+            tick.hit(vs.len());
+            vs.iter().map(|v| apply_vf(f, *v).unwrap()).collect::<Vec<i64>>()
+        }),
+    }
+}
+fn collect_t<T: RowT>(w: &World, c: &PCollection<T>, mode: Mode) -> Result<Vec<Row>, String> {
+    use ironbeam::checkpoint::{CheckpointConfig, CheckpointPolicy};
+    let ck = |m: ExecMode| Runner {
+        mode: m,
+        checkpoint_config: Some(CheckpointConfig {
+            enabled: true, directory: w.ckdir.clone(), policy: CheckpointPolicy::AfterEveryBarrier, auto_recover: true, max_checkpoints: Some(3),
+        }),
+        ..Default::default()
+    };
+    let r = match mode {
+        Mode::Seq => c.clone().collect_seq(),
+        Mode::Par(p) => c.clone().collect_par(None, Some(p)),
+        Mode::Plain => c.clone().collect(),
+        Mode::SeqSorted => c.clone().collect_seq_sorted(),
+        Mode::ParSorted(p) => c.clone().collect_par_sorted(None, Some(p)),
+        Mode::Threads(t) => c.clone().collect_par(Some(t), None),
+        Mode::CkSeq => ck(ExecMode::Sequential).run_collect::<T>(&w.pipeline, c.node_id()),
+        Mode::CkPar(p) => ck(ExecMode::Parallel { threads: None, partitions: Some(p) }).run_collect::<T>(&w.pipeline, c.node_id()),
+    };
     r.map(|v| v.iter().map(RowT::to_row).collect()).map_err(|e| format!("{e:#}"))
 }
-fn collect_real(h: &Handle, mode: Option<usize>) -> Result<Vec<Row>, String> {
-    each_coll!(&h.coll, c => collect_t(c, mode))
+fn collect_real(w: &World, h: &Handle, mode: Mode) -> Result<Vec<Row>, String> {
+    each_coll!(&h.coll, c => collect_t(w, c, mode))
 }
 
 /// what one collect observed vs. what its creation-time lineage says
-struct CollectObs { tid: usize, node: u64, real: String, want: String }
+struct CollectObs { tid: usize, node: u64, mode: Mode, real: String, want: String, order: Option<String> }
 
 /// run one operation of a thread on the real pipeline (after its `begin` yield)
 fn exec_op(w: &World, own: &mut Vec<Handle>, op: &Op, tid: usize, obs: &Mutex<Vec<CollectObs>>) -> Outcome {
@@ -381,85 +535,115 @@ fn exec_op(w: &World, own: &mut Vec<Handle>, op: &Op, tid: usize, obs: &Mutex<Ve
         own.push(h);
         Outcome::Built(id)
     };
-    // a derive whose node holds a user function: register the lineage node (with its counters), build for real
-    let built = |lin: Arc<Lin>, with_fn: bool, mk: &dyn Fn() -> Coll, own: &mut Vec<Handle>| {
-        if with_fn { w.closures.lock().unwrap().push(lin.clone()); }
+    // a builder: build for real; when it holds a user function, that function must still be uncalled when the
+    // builder returns (nobody else can know the new handle yet)
+    let built = |lin: Arc<Lin>, tick: Option<&Tick>, inserted: usize, mk: &dyn Fn() -> Coll, own: &mut Vec<Handle>| {
         match guarded(|| mk()) {
-            Ok(coll) => publish(Handle { coll, lin, inserted: 1 }, own),
+            Ok(coll) => {
+                if let Some(t) = tick {
+                    let n = t.own.load(Ordering::SeqCst);
+                    if n != 0 { w.eager.lock().unwrap().push(format!("thread {tid}: {} returned with its user function already called {n} times", enc_op(op))); }
+                }
+                publish(Handle { coll, lin, inserted }, own)
+            }
             Err(_) => Outcome::Panicked,
         }
     };
     match op {
-        Op::Source(rows) => {
-            let rows2 = rows.clone();
+        Op::Source(kind, rows) => {
             let p = w.pipeline.clone();
-            match guarded(move || from_vec(&p, rows2)) {
-                Ok(c) => publish(Handle { coll: Coll::KV(c), lin: Arc::new(Lin::Src(rows.clone())), inserted: 1 }, own),
-                Err(_) => Outcome::Panicked,
+            let rows2 = rows.clone();
+            let reads = w.src_reads.clone();
+            let kind = *kind;
+            let made = guarded(move || -> Result<PCollection<KV>, String> {
+                match kind {
+                    SrcKind::Vec => Ok(from_vec(&p, rows2)),
+                    SrcKind::Custom => Ok(from_custom_source::<KV, CustomPayload>(&p, CustomPayload { rows: rows2, reads }, Arc::new(CustomOps))),
+                    SrcKind::Jsonl(n) => read_jsonl_streaming::<KV>(&p, data_file("jsonl", &rows2), n).map_err(|e| format!("{e:#}")),
+                    SrcKind::Csv(n) => read_csv_streaming::<KV>(&p, data_file("csv", &rows2), false, n).map_err(|e| format!("{e:#}")),
+                }
+            });
+            match made {
+                Ok(Ok(c)) => publish(Handle { coll: Coll::KV(c), lin: Arc::new(Lin::Src(rows.clone())), inserted: 1 }, own),
+                _ => Outcome::Panicked,
             }
         }
         Op::Derive(r, f) => {
             let Some(h) = resolve(&pool_now, own, *r) else { return Outcome::Skipped };
-            let cnt = Cnt::new();
-            let actual = cnt.actual.clone();
-            let lin = Arc::new(Lin::Map { parent: h.lin.clone(), f: *f, cnt });
-            built(lin, true, &|| derive_real(&h, *f, actual.clone()), own)
+            let tick = Tick::new(w);
+            let lin = Arc::new(Lin::Map { parent: h.lin.clone(), f: *f });
+            built(lin, Some(&tick), 1, &|| derive_real(&h, *f, tick.clone()), own)
+        }
+        Op::ValOp(r, f) => {
+            let Some(h) = resolve_cls(&pool_now, own, 0, *r) else { return Outcome::Skipped };
+            let Coll::KV(c) = &h.coll else { return Outcome::Skipped };
+            let tick = Tick::new(w);
+            let lin = Arc::new(Lin::Val { parent: h.lin.clone(), f: *f });
+            built(lin, Some(&tick), 1, &|| Coll::KV(valop_real(c, *f, tick.clone())), own)
         }
         Op::Group(r) => {
             let Some(h) = resolve_cls(&pool_now, own, 0, *r) else { return Outcome::Skipped };
             let Coll::KV(c) = &h.coll else { return Outcome::Skipped };
-            built(Arc::new(Lin::Group(h.lin.clone())), false, &|| Coll::G(c.clone().group_by_key()), own)
+            built(Arc::new(Lin::Group(h.lin.clone())), None, 1, &|| Coll::G(c.clone().group_by_key()), own)
         }
         Op::CombV(r, bias) => {
             let Some(h) = resolve_cls(&pool_now, own, 0, *r) else { return Outcome::Skipped };
             let Coll::KV(c) = &h.coll else { return Outcome::Skipped };
-            let cnt = Cnt::new();
-            let actual = cnt.actual.clone();
-            let lin = Arc::new(Lin::CombV { parent: h.lin.clone(), bias: *bias, cnt });
-            built(lin, true, &|| Coll::KV(c.clone().combine_values(SumC { bias: *bias, calls: actual.clone() })), own)
+            let tick = Tick::new(w);
+            let lin = Arc::new(Lin::CombV { parent: h.lin.clone(), bias: *bias });
+            built(lin, Some(&tick), 1, &|| Coll::KV(c.clone().combine_values(SumC { bias: *bias, tick: tick.clone() })), own)
         }
         Op::CombL(r, bias) => {
             let Some(h) = resolve_cls(&pool_now, own, 2, *r) else { return Outcome::Skipped };
             let Coll::G(c) = &h.coll else { return Outcome::Skipped };
-            let cnt = Cnt::new();
-            let actual = cnt.actual.clone();
-            let lin = Arc::new(Lin::CombV { parent: h.lin.clone(), bias: *bias, cnt });
-            built(lin, true, &|| Coll::KV(c.clone().combine_values_lifted(SumC { bias: *bias, calls: actual.clone() })), own)
+            let tick = Tick::new(w);
+            let lin = Arc::new(Lin::CombV { parent: h.lin.clone(), bias: *bias });
+            built(lin, Some(&tick), 1, &|| Coll::KV(c.clone().combine_values_lifted(SumC { bias: *bias, tick: tick.clone() })), own)
         }
-        Op::CombG(r, bias, fanout) => {
+        Op::CombG(r, bias, fanout, lifted) => {
             let Some(h) = resolve_cls(&pool_now, own, 0, *r) else { return Outcome::Skipped };
             let Coll::KV(c) = &h.coll else { return Outcome::Skipped };
-            let cnt = Cnt::new();
-            let actual = cnt.actual.clone();
-            let lin = Arc::new(Lin::CombG { parent: h.lin.clone(), bias: *bias, cnt });
-            built(lin, true, &|| Coll::KV(c.clone().combine_globally(SumKV { bias: *bias, calls: actual.clone() }, *fanout)), own)
+            let tick = Tick::new(w);
+            let lin = Arc::new(Lin::CombG { parent: h.lin.clone(), bias: *bias });
+            built(lin, Some(&tick), 1, &|| {
+                let comb = SumKV { bias: *bias, tick: tick.clone() };
+                Coll::KV(if *lifted { c.clone().combine_globally_lifted(comb, *fanout) } else { c.clone().combine_globally(comb, *fanout) })
+            }, own)
         }
         Op::Join(kind, l, r) => {
             let (Some(a), Some(b)) = (resolve_cls(&pool_now, own, 0, *l), resolve_cls(&pool_now, own, 0, *r)) else {
                 return Outcome::Skipped;
             };
             let (Coll::KV(ca), Coll::KV(cb)) = (&a.coll, &b.coll) else { return Outcome::Skipped };
-            let made = guarded(|| match kind {
+            let lin = Arc::new(Lin::Join(*kind, a.lin.clone(), b.lin.clone()));
+            built(lin, None, 2, &|| match kind {
                 JK::Inner => Coll::JI(ca.join_inner(cb)),
                 JK::Left => Coll::JL(ca.join_left(cb)),
                 JK::Right => Coll::JR(ca.join_right(cb)),
                 JK::Full => Coll::JF(ca.join_full(cb)),
-            });
-            match made {
-                Ok(coll) => publish(Handle { coll, lin: Arc::new(Lin::Join(*kind, a.lin.clone(), b.lin.clone())), inserted: 2 }, own),
-                Err(_) => Outcome::Panicked,
-            }
+            }, own)
         }
         Op::Collect(r, mode) => {
             let Some(h) = resolve(&pool_now, own, *r) else { return Outcome::Skipped };
-            let real = match guarded(|| collect_real(&h, *mode)) {
-                Ok(Ok(rows)) => show_rows(rows),
+            let got = guarded(|| collect_real(w, &h, *mode));
+            // the oracle's value: the creation-time lineage alone
+            let want_rows = eval(&h.lin);
+            let want_seq = render_rows(&want_rows);
+            let mut order = None;
+            let real = match got {
+                Ok(Ok(rows)) => {
+                    let seq = render_rows(&rows);
+                    let sorted_mode = matches!(mode, Mode::SeqSorted | Mode::ParSorted(_));
+                    if h.lin.ordered() && !sorted_mode && seq != want_seq {
+                        let at = seq.iter().zip(&want_seq).position(|(a, b)| a != b).unwrap_or(seq.len().min(want_seq.len()));
+                        order = Some(format!("{} rows, first difference at index {at}: got {:?} want {:?}", seq.len(), seq.get(at), want_seq.get(at)));
+                    }
+                    show_sorted(seq)
+                }
                 Ok(Err(e)) => format!("ERR-{}", e.split_whitespace().take(3).collect::<Vec<_>>().join("-")),
                 Err(_) => "PANIC".to_string(),
             };
-            // the oracle's value: the creation-time lineage alone (also accounts the user-function calls it implies)
-            let want = show_rows(eval(&h.lin, true));
-            obs.lock().unwrap().push(CollectObs { tid, node: h.id(), real: real.clone(), want });
+            obs.lock().unwrap().push(CollectObs { tid, node: h.id(), mode: *mode, real: real.clone(), want: show_sorted(want_seq), order });
             Outcome::Collected(h.id(), real)
         }
         Op::SetM => {
@@ -476,31 +660,68 @@ fn exec_op(w: &World, own: &mut Vec<Handle>, op: &Op, tid: usize, obs: &Mutex<Ve
                 Err(_) => Outcome::Panicked,
             }
         }
+        Op::GetM => {
+            let p = w.pipeline.clone();
+            match guarded(move || p.get_metrics().is_some()) {
+                Ok(b) => Outcome::MGot(b),
+                Err(_) => Outcome::Panicked,
+            }
+        }
     }
 }
 
 // ---------------------------------------------------------------------------------------------
 // cooperative scheduler
 
-/// one granted atomic step: who, through which lock site, and the real graph size right after it
-struct Step { tid: usize, site: &'static str, nodes: usize, edges: usize }
-struct St { parked: Vec<Option<&'static str>>, done: Vec<bool>, grant: Option<usize> }
+/// one granted step: who, through which site, the real graph size and the total of user-function calls right
+/// after it, and whether the thread was inside a collect operation
+struct Step { tid: usize, site: &'static str, nodes: usize, edges: usize, calls: u64, collect: bool }
+struct St { parked: Vec<Option<&'static str>>, done: Vec<bool>, grant: Option<usize>, in_collect: Vec<bool> }
 struct Sched { m: Mutex<St>, cv: Condvar }
 
 thread_local! {
-    static CUR: RefCell<Option<(Arc<Sched>, usize)>> = const { RefCell::new(None) };
+    /// (scheduler, thread index, FINE: also stop between the nodes of a running chain)
+    static CUR: RefCell<Option<(Arc<Sched>, usize, bool)>> = const { RefCell::new(None) };
 }
 
+/// machine stalls absorbed by the grace period / histories that looked hung once and completed when re-executed
+static STALLS: AtomicU64 = AtomicU64::new(0);
+static UNCONFIRMED_HANGS: AtomicU64 = AtomicU64::new(0);
+/// set after a CONFIRMED hang: the leaked threads make further histories meaningless, the run stops generating
+static ABORT: AtomicBool = AtomicBool::new(false);
+
 fn yield_here(site: &'static str) {
-    // only the pipeline's own lock sites (and the harness' `begin`) are scheduling points of this model
-    if site != "begin" && !site.starts_with("pipeline:") { return; }
+    // the pipeline's own lock sites and the harness' `begin` are the scheduling points of the model; the stage
+    // boundaries of a running chain are additional stopping points in the FINE blocks only
+    let stage = site == "runner:stage";
+    if site != "begin" && !stage && !site.starts_with("pipeline:") { return; }
     let cur = CUR.with(|c| c.borrow().clone());
-    if let Some((s, t)) = cur { s.park(t, site); }
+    if let Some((s, t, fine)) = cur {
+        if stage && !fine { return; }
+        s.park(t, site);
+    }
+}
+
+/// how long a step may take before it counts as a stall, and for how much longer the SAME step is waited for
+#[derive(Clone, Copy)]
+struct Limits { first: Duration, grace: Duration }
+impl Limits {
+    fn normal() -> Limits {
+        // IBH_C08_STEP_MS / IBH_C08_GRACE_MS: validation knobs (make stalls / suspected hangs frequent so that the grace
+        // path and the confirm-by-re-execution path are exercised)
+        let first = std::env::var("IBH_C08_STEP_MS").ok().and_then(|s| s.parse::<u64>().ok()).map_or(Duration::from_secs(30), Duration::from_millis);
+        let grace = std::env::var("IBH_C08_GRACE_MS").ok().and_then(|s| s.parse::<u64>().ok()).map_or(Duration::from_secs(270), Duration::from_millis);
+        Limits { first, grace }
+    }
+    fn confirm() -> Limits {
+        let first = std::env::var("IBH_C08_CONFIRM_MS").ok().and_then(|s| s.parse::<u64>().ok()).map_or(Duration::from_secs(600), Duration::from_millis);
+        Limits { first, grace: Duration::ZERO }
+    }
 }
 
 impl Sched {
     fn new(n: usize) -> Arc<Sched> {
-        Arc::new(Sched { m: Mutex::new(St { parked: vec![None; n], done: vec![false; n], grant: None }), cv: Condvar::new() })
+        Arc::new(Sched { m: Mutex::new(St { parked: vec![None; n], done: vec![false; n], grant: None, in_collect: vec![false; n] }), cv: Condvar::new() })
     }
     fn park(&self, t: usize, site: &'static str) {
         let mut g = self.m.lock().unwrap();
@@ -510,30 +731,39 @@ impl Sched {
         g.grant = None;
         g.parked[t] = None;
     }
+    fn set_op(&self, t: usize, collect: bool) { self.m.lock().unwrap().in_collect[t] = collect; }
     fn finish(&self, t: usize) {
         let mut g = self.m.lock().unwrap();
         g.done[t] = true;
         self.cv.notify_all();
     }
     /// follow `plan` (entries of finished threads are skipped; afterwards lowest live thread first);
-    /// returns the linearisation that actually happened, or None on a hang
-    fn drive(&self, plan: &[usize], probe: &dyn Fn() -> (usize, usize)) -> Option<Vec<Step>> {
+    /// returns the linearisation that actually happened, or None when a step did not come back within the limits
+    fn drive(&self, plan: &[usize], probe: &dyn Fn() -> (usize, usize, u64), lim: Limits) -> Option<Vec<Step>> {
         let mut trace: Vec<Step> = vec![];
         let mut pos = 0;
         loop {
             let mut g = self.m.lock().unwrap();
             let quiescent = |g: &St| g.grant.is_none() && (0..g.done.len()).all(|t| g.done[t] || g.parked[t].is_some());
+            let start = Instant::now();
+            let mut stalled = false;
             while !quiescent(&g) {
-                let (g2, to) = self.cv.wait_timeout(g, Duration::from_secs(20)).unwrap();
+                let slice = lim.first.min(Duration::from_millis(250)).max(Duration::from_millis(1));
+                let (g2, _) = self.cv.wait_timeout(g, slice).unwrap();
                 g = g2;
-                if to.timed_out() && !quiescent(&g) { return None; }
+                if !quiescent(&g) {
+                    let el = start.elapsed();
+                    if el > lim.first { stalled = true; }
+                    if el > lim.first + lim.grace { return None; }
+                }
             }
+            if stalled { STALLS.fetch_add(1, Ordering::SeqCst); }
             // everybody is parked or done: nobody holds the pipeline lock; look at what the last step did
-            if let Some(last) = trace.last_mut() { let (n, e) = probe(); last.nodes = n; last.edges = e; }
+            if let Some(last) = trace.last_mut() { let (n, e, c) = probe(); last.nodes = n; last.edges = e; last.calls = c; }
             if g.done.iter().all(|d| *d) { return Some(trace); }
-            while pos < plan.len() && g.done[plan[pos]] { pos += 1; }
+            while pos < plan.len() && (plan[pos] >= g.done.len() || g.done[plan[pos]]) { pos += 1; }
             let t = if pos < plan.len() { pos += 1; plan[pos - 1] } else { (0..g.done.len()).find(|t| !g.done[*t]).unwrap() };
-            trace.push(Step { tid: t, site: g.parked[t].unwrap(), nodes: 0, edges: 0 });
+            trace.push(Step { tid: t, site: g.parked[t].unwrap(), nodes: 0, edges: 0, calls: 0, collect: g.in_collect[t] });
             g.grant = Some(t);
             self.cv.notify_all();
         }
@@ -550,6 +780,8 @@ fn site_code(s: &str) -> char {
         "pipeline:record_metrics_end" => 'e',
         "pipeline:set_metrics" => 'M',
         "pipeline:take_metrics" => 'K',
+        "pipeline:get_metrics" => 'g',
+        "runner:stage" => 'r',
         _ => '?',
     }
 }
@@ -558,44 +790,90 @@ fn site_code(s: &str) -> char {
 // one history
 
 struct HistoryResult {
-    trace: Option<Vec<Step>>, // None = hang (scheduled mode only)
+    trace: Option<Vec<Step>>, // None = did not come back within the limits
     outs: Vec<Vec<Outcome>>,
     obs: Vec<CollectObs>,
     world: Arc<World>,
 }
 
-/// run `progs` on fresh real threads sharing a fresh pipeline; `plan = Some(schedule)`: cooperative,
-/// `None`: free-running (truly concurrent, started together)
-fn run_history(progs: &[Vec<Op>], plan: Option<&[usize]>) -> HistoryResult {
+static WORLD_SEQ: AtomicUsize = AtomicUsize::new(0);
+
+/// run `progs` on fresh real threads sharing a fresh pipeline, after `pre` was executed on it by this thread
+/// (no scheduler). `plan = Some(schedule)`: cooperative (`fine`: also stop at stage boundaries); `None`:
+/// free-running (truly concurrent, started together)
+fn run_history(pre: &[Op], progs: &[Vec<Op>], plan: Option<&[usize]>, fine: bool, lim: Limits) -> HistoryResult {
     let n = progs.len();
-    let world = Arc::new(World { pipeline: Pipeline::default(), pool: Mutex::new(vec![]), closures: Mutex::new(vec![]) });
-    let sched = Sched::new(n);
+    let world = Arc::new(World {
+        pipeline: Pipeline::default(), pool: Mutex::new(vec![]),
+        calls: Arc::new(AtomicU64::new(0)), aux: Arc::new(AtomicU64::new(0)), src_reads: Arc::new(AtomicU64::new(0)),
+        ckdir: scratch().join(format!("ck{}", WORLD_SEQ.fetch_add(1, Ordering::SeqCst))),
+        eager: Mutex::new(vec![]),
+    });
     let obs = Arc::new(Mutex::new(Vec::<CollectObs>::new()));
+    {
+        let mut own: Vec<Handle> = vec![];
+        for op in pre { let _ = exec_op(&world, &mut own, op, usize::MAX, &obs); }
+    }
+    let sched = Sched::new(n);
     let outs = Arc::new(Mutex::new(vec![Vec::<Outcome>::new(); n]));
     let start = Arc::new(std::sync::Barrier::new(n));
     let scheduled = plan.is_some();
+    let (done_tx, done_rx) = std::sync::mpsc::channel::<usize>();
     let mut joins = vec![];
     for (t, prog) in progs.iter().enumerate() {
-        let (world, sched, obs, outs, prog, start) = (world.clone(), sched.clone(), obs.clone(), outs.clone(), prog.clone(), start.clone());
+        let (world, sched, obs, outs, prog, start, done_tx) = (world.clone(), sched.clone(), obs.clone(), outs.clone(), prog.clone(), start.clone(), done_tx.clone());
         joins.push(std::thread::spawn(move || {
-            struct Fin(Arc<Sched>, usize);
-            impl Drop for Fin { fn drop(&mut self) { CUR.with(|c| *c.borrow_mut() = None); self.0.finish(self.1); } }
-            let _fin = Fin(sched.clone(), t);
-            if scheduled { CUR.with(|c| *c.borrow_mut() = Some((sched.clone(), t))); } else { start.wait(); }
+            struct Fin(Arc<Sched>, usize, std::sync::mpsc::Sender<usize>);
+            impl Drop for Fin { fn drop(&mut self) { CUR.with(|c| *c.borrow_mut() = None); self.0.finish(self.1); let _ = self.2.send(self.1); } }
+            let _fin = Fin(sched.clone(), t, done_tx);
+            if scheduled { CUR.with(|c| *c.borrow_mut() = Some((sched.clone(), t, fine))); } else { start.wait(); }
             let mut own: Vec<Handle> = vec![];
             for op in &prog {
+                if scheduled { sched.set_op(t, matches!(op, Op::Collect(..))); }
                 yield_here("begin");
                 let o = exec_op(&world, &mut own, op, t, &obs);
                 outs.lock().unwrap()[t].push(o);
             }
         }));
     }
-    let probe = || { let (n, e) = world.pipeline.snapshot(); (n.len(), e.len()) };
-    let trace = match plan { Some(p) => sched.drive(p, &probe), None => Some(vec![]) };
+    drop(done_tx);
+    let probe = || {
+        let (n, e) = world.pipeline.snapshot();
+        (n.len(), e.len(), world.calls.load(Ordering::SeqCst) + world.aux.load(Ordering::SeqCst))
+    };
+    let trace = match plan {
+        Some(p) => sched.drive(p, &probe, lim),
+        None => {
+            // free-running: all threads must come back within the limits
+            let t0 = Instant::now();
+            let deadline = t0 + lim.first + lim.grace;
+            let mut back = 0;
+            while back < n {
+                let now = Instant::now();
+                if now >= deadline { break; }
+                match done_rx.recv_timeout((deadline - now).min(Duration::from_millis(250))) {
+                    Ok(_) => back += 1,
+                    Err(std::sync::mpsc::RecvTimeoutError::Timeout) => {}
+                    Err(_) => break,
+                }
+            }
+            if back == n && t0.elapsed() > lim.first && lim.grace > Duration::ZERO { STALLS.fetch_add(1, Ordering::SeqCst); }
+            if back == n { Some(vec![]) } else { None }
+        }
+    };
     if trace.is_some() { for j in joins { let _ = j.join(); } }
     let outs = outs.lock().unwrap().clone();
     let obs = std::mem::take(&mut *obs.lock().unwrap());
     HistoryResult { trace, outs, obs, world }
+}
+
+/// run a history; a history that does not come back is re-executed from scratch (fresh pipeline, fresh threads)
+/// with a much longer limit; only a history that hangs BOTH times is reported as hung (`Err`)
+fn run_confirmed(pre: &[Op], progs: &[Vec<Op>], plan: Option<&[usize]>, fine: bool) -> Result<HistoryResult, HistoryResult> {
+    let res = run_history(pre, progs, plan, fine, Limits::normal());
+    if res.trace.is_some() { return Ok(res); }
+    let again = run_history(pre, progs, plan, fine, Limits::confirm());
+    if again.trace.is_some() { UNCONFIRMED_HANGS.fetch_add(1, Ordering::SeqCst); Ok(again) } else { ABORT.store(true, Ordering::SeqCst); Err(again) }
 }
 
 struct Snap { ids: Vec<u64>, kinds: Vec<char>, edges: Vec<(u64, u64)> }
@@ -614,6 +892,7 @@ fn snap(p: &Pipeline) -> Snap {
 }
 
 fn dash(v: Vec<String>) -> String { if v.is_empty() { "-".into() } else { v.join(",") } }
+fn clip(s: &str, n: usize) -> String { if s.len() <= n { s.to_string() } else { format!("{}…({} bytes)", &s[..s.char_indices().take_while(|(i, _)| *i < n).last().map_or(0, |(i, c)| i + c.len_utf8())], s.len()) } }
 
 /// the graph facts the property states, evaluated on the real snapshot: one node per insert with pairwise
 /// distinct ids (none lost/overwritten), edges between existing distinct nodes, in-degree <= 1
@@ -621,7 +900,7 @@ fn graph_ok(s: &Snap, inserts: usize) -> Result<(), String> {
     let mut ids = s.ids.clone();
     ids.dedup();
     if ids.len() != s.ids.len() || ids.len() != inserts {
-        return Err(format!("{} nodes with ids {:?} after {inserts} inserts (ids must be pairwise distinct, none lost)", s.ids.len(), s.ids));
+        return Err(format!("{} nodes with ids {:?} after {inserts} inserts (ids must be pairwise distinct, none lost)", s.ids.len(), clip(&format!("{:?}", s.ids), 300)));
     }
     for (f, t) in &s.edges {
         if f == t || ids.binary_search(f).is_err() || ids.binary_search(t).is_err() {
@@ -635,7 +914,7 @@ fn graph_ok(s: &Snap, inserts: usize) -> Result<(), String> {
 }
 
 /// oracle checks shared by the scheduled and the free-running mode
-fn check_oracle(cx: &mut Ctx, i: usize, res: &HistoryResult, s: &Snap) {
+fn check_oracle(cx: &mut Ctx, i: usize, res: &HistoryResult, s: &Snap, ctxt: &str) {
     // node ids: one per insert, pairwise distinct
     let mut inserts = 0usize;
     let mut built: Vec<u64> = vec![];
@@ -646,63 +925,78 @@ fn check_oracle(cx: &mut Ctx, i: usize, res: &HistoryResult, s: &Snap) {
     for h in res.world.pool.lock().unwrap().iter() {
         inserts += h.inserted;
     }
-    if panics > 0 { cx.oracle_fail(i, "operation-panicked", format!("{panics} operations panicked")); }
+    if panics > 0 { cx.oracle_fail(i, "operation-panicked", format!("{panics} operations panicked{ctxt}")); }
     let mut b2 = built.clone();
     b2.sort();
     b2.dedup();
-    if b2.len() != built.len() { cx.oracle_fail(i, "node-ids-not-distinct", format!("handles returned by builders share an id: {built:?}")); }
+    // handles built by the (unscheduled) prefix are in the pool, not in `outs`
+    let mut pool_ids: Vec<u64> = res.world.pool.lock().unwrap().iter().map(Handle::id).collect();
+    let pool_n = pool_ids.len();
+    pool_ids.sort();
+    pool_ids.dedup();
+    if b2.len() != built.len() || pool_ids.len() != pool_n {
+        cx.oracle_fail(i, "node-ids-not-distinct", format!("handles returned by builders share an id: {}{ctxt}", clip(&format!("{built:?}"), 300)));
+    }
     if panics == 0 {
-        if let Err(e) = graph_ok(s, inserts) { cx.oracle_fail(i, "graph-invariant-broken", e); }
+        if let Err(e) = graph_ok(s, inserts) { cx.oracle_fail(i, "graph-invariant-broken", format!("{e}{ctxt}")); }
     }
     // every collect equals the value of its creation-time lineage
     for o in &res.obs {
         if o.real != o.want {
-            cx.oracle_fail(i, "collect-differs-from-lineage", format!("thread {} collect of node {}: got {} want {}", o.tid, o.node, o.real, o.want));
+            cx.oracle_fail(i, "collect-differs-from-lineage", format!("thread {} collect ({}) of node {}: got {} want {}{ctxt}", o.tid, enc_mode(o.mode), o.node, clip(&o.real, 400), clip(&o.want, 400)));
+            break;
+        }
+        if let Some(d) = &o.order {
+            cx.oracle_fail(i, "collect-order-differs-from-lineage", format!("thread {} collect ({}) of node {} (a lineage without barrier: the order is fixed by the source): {d}{ctxt}", o.tid, enc_mode(o.mode), o.node));
             break;
         }
     }
-    // laziness / no interference: each user function (closure, CombineFn::add_input) was called exactly as
-    // often as the collects containing it imply
-    let mut total_calls = 0;
-    for l in res.world.closures.lock().unwrap().iter() {
-        if let Some((cnt, what)) = l.cnt() {
-            let (a, e) = (cnt.actual.load(Ordering::SeqCst), cnt.expected.load(Ordering::SeqCst));
-            total_calls += a;
-            if a != e {
-                let sig = if res.obs.is_empty() { "user-code-ran-while-building" } else { "closure-calls-differ-from-lineage" };
-                cx.oracle_fail(i, sig, format!("{what}: called {a} times, its collects imply {e}"));
-                break;
-            }
-        }
+    // laziness: a builder returns with its own user function uncalled; a history without a collect calls nothing
+    let total = res.world.calls.load(Ordering::SeqCst) + res.world.aux.load(Ordering::SeqCst);
+    if let Some(e) = res.world.eager.lock().unwrap().first() {
+        cx.oracle_fail(i, "user-code-ran-while-building", format!("{e}{ctxt}"));
+    } else if res.obs.is_empty() && total != 0 {
+        cx.oracle_fail(i, "user-code-ran-while-building", format!("{total} user-function calls in a history without a collect{ctxt}"));
     }
-    if res.obs.is_empty() { cx.count("history:build-only(0 closure calls required)"); }
-    cx.count_n("closure calls observed", total_calls);
+    if res.obs.is_empty() { cx.count("history:build-only(0 user-function calls required)"); }
+    cx.count_n("user-function calls observed (per element / add_input)", res.world.calls.load(Ordering::SeqCst));
+    cx.count_n("user-function calls observed (create/merge/finish)", res.world.aux.load(Ordering::SeqCst));
+    cx.count_n("reads of a user VecOps", res.world.src_reads.load(Ordering::SeqCst));
+    for o in &res.obs { cx.count(&format!("collect mode:{}", match o.mode {
+        Mode::Seq => "collect_seq", Mode::Par(_) => "collect_par(partitions)", Mode::Plain => "collect", Mode::SeqSorted => "collect_seq_sorted",
+        Mode::ParSorted(_) => "collect_par_sorted", Mode::Threads(_) => "collect_par(threads)", Mode::CkSeq => "checkpointed Runner seq", Mode::CkPar(_) => "checkpointed Runner par",
+    })); }
 }
 
-fn total_calls(res: &HistoryResult) -> u64 {
-    res.world.closures.lock().unwrap().iter().filter_map(|l| l.cnt().map(|(c, _)| c.actual.load(Ordering::SeqCst))).sum()
+fn req_of(progs: &[Vec<Op>], sched: &str) -> String {
+    format!("GRAPH {} {} {sched}", progs.len(), progs.iter().map(|p| enc_prog(p)).collect::<Vec<_>>().join(" "))
 }
 
-fn one_scheduled(cx: &mut Ctx, progs: &[Vec<Op>], plan: &[usize], tag: &str) {
-    let res = run_history(progs, Some(plan));
+fn one_scheduled(cx: &mut Ctx, progs: &[Vec<Op>], plan: &[usize], tag: &str) { one_sched(cx, progs, plan, tag, false) }
+
+fn one_sched(cx: &mut Ctx, progs: &[Vec<Op>], plan: &[usize], tag: &str, fine: bool) {
+    if ABORT.load(Ordering::SeqCst) { return; }
     let n = progs.len();
-    let Some(trace) = res.trace.as_ref() else {
-        let req = format!("GRAPH {n} {} {}", progs.iter().map(|p| enc_prog(p)).collect::<Vec<_>>().join(" "),
-            plan.iter().map(|t| t.to_string()).collect::<String>());
-        let i = cx.case(req, "HANG".into(), true);
-        cx.oracle_fail(i, "hang", "a thread never reached its next yield point".into());
-        return;
+    let res = match run_confirmed(&[], progs, Some(plan), fine) {
+        Ok(r) => r,
+        Err(_) => {
+            let i = cx.case(req_of(progs, &plan.iter().map(|t| t.to_string()).collect::<String>()), "HANG".into(), true);
+            cx.oracle_fail(i, "hang", format!("a thread never reached its next yield point — twice: in the first execution (limit {:?} + grace {:?} per step) and in a re-execution from scratch (limit {:?} per step); fine={fine}", Limits::normal().first, Limits::normal().grace, Limits::confirm().first));
+            return;
+        }
     };
+    let full = res.trace.as_ref().unwrap();
+    let trace: Vec<&Step> = full.iter().filter(|st| st.site != "runner:stage").collect();
     let s = snap(&res.world.pipeline);
     let sched_s: String = if trace.is_empty() { "-".into() } else { trace.iter().map(|st| st.tid.to_string()).collect() };
     let trace_s: String = if trace.is_empty() { "-".into() } else { trace.iter().map(|st| format!("{}{}{}.{}", st.tid, site_code(st.site), st.nodes, st.edges)).collect() };
-    let req = format!("GRAPH {n} {} {sched_s}", progs.iter().map(|p| enc_prog(p)).collect::<Vec<_>>().join(" "));
+    let req = req_of(progs, &sched_s);
     let mut real = format!(
         "n={} N={} E={} T={trace_s} U={}",
         s.ids.len(),
         dash(s.ids.iter().zip(&s.kinds).map(|(i, k)| format!("{i}:{k}")).collect()),
         dash(s.edges.iter().map(|(a, b)| format!("{a}-{b}")).collect()),
-        total_calls(&res)
+        res.world.calls.load(Ordering::SeqCst)
     );
     for (t, o) in res.outs.iter().enumerate() {
         real.push_str(&format!(" t{t}={}", dash(o.iter().map(show_outcome).collect())));
@@ -710,30 +1004,63 @@ fn one_scheduled(cx: &mut Ctx, progs: &[Vec<Op>], plan: &[usize], tag: &str) {
     let collects = res.obs.len();
     let i = cx.case(req, real, n >= 2 && trace.len() >= 4);
     cx.count(&format!("{tag}:threads={n}"));
-    cx.count_n(&format!("{tag}:atomic steps"), trace.len() as u64);
+    cx.count_n(&format!("{tag}:lock steps"), trace.len() as u64);
+    if fine { cx.count_n(&format!("{tag}:stage steps"), (full.len() - trace.len()) as u64); }
     cx.count_n(&format!("{tag}:collects"), collects as u64);
     let mut switches = 0;
-    for w in trace.windows(2) { if w[0].tid != w[1].tid { switches += 1; } }
+    for w in full.windows(2) { if w[0].tid != w[1].tid { switches += 1; } }
     cx.count_n(&format!("{tag}:context switches"), switches);
-    check_oracle(cx, i, &res, &s);
-    // set/take_metrics are linearisable: replaying the real lock-site trace, every take_metrics returns
-    // Some exactly when a set_metrics was the last metrics write before it
+    if fine {
+        // two executions really interleaved: a stage step of one thread between two stage/lock steps of a collect of another
+        let mut open: Vec<bool> = vec![false; n];
+        let mut overlapped = false;
+        for st in full {
+            match site_code(st.site) {
+                's' | 'r' if st.collect => { if (0..n).any(|t| t != st.tid && open[t]) { overlapped = true; } open[st.tid] = true; }
+                'e' => open[st.tid] = false,
+                _ => {}
+            }
+        }
+        if overlapped { cx.count(&format!("{tag}:histories with two executions interleaved stage by stage")); }
+    }
+    check_oracle(cx, i, &res, &s, "");
+    // laziness at step granularity: only a step of a COLLECT operation may call a user function
+    let mut prev = 0u64;
+    for (k, st) in full.iter().enumerate() {
+        if st.calls != prev && !st.collect {
+            cx.oracle_fail(i, "user-code-ran-while-building", format!("step {k} (thread {}, site {}) of a build operation made {} user-function calls", st.tid, st.site, st.calls - prev));
+            break;
+        }
+        prev = st.calls;
+    }
+    // set/take/get_metrics are linearisable: replaying the real lock-site trace, every take_metrics / get_metrics
+    // returns Some exactly when a set_metrics was the last metrics write before it
     let mut has = false;
-    let mut expect: Vec<Vec<bool>> = vec![vec![]; n];
-    for st in trace {
-        match site_code(st.site) { 'M' => has = true, 'K' => { expect[st.tid].push(has); has = false; } _ => {} }
+    let mut expect: Vec<Vec<(char, bool)>> = vec![vec![]; n];
+    for st in &trace {
+        match site_code(st.site) { 'M' => has = true, 'K' => { expect[st.tid].push(('K', has)); has = false; } 'g' => expect[st.tid].push(('g', has)), _ => {} }
     }
     for (t, o) in res.outs.iter().enumerate() {
-        let got: Vec<bool> = o.iter().filter_map(|x| if let Outcome::MTaken(b) = x { Some(*b) } else { None }).collect();
+        let got: Vec<(char, bool)> = o.iter().filter_map(|x| match x { Outcome::MTaken(b) => Some(('K', *b)), Outcome::MGot(b) => Some(('g', *b)), _ => None }).collect();
         if got != expect[t] {
-            cx.oracle_fail(i, "take-metrics-not-linearisable", format!("thread {t}: take_metrics returned Some = {got:?}, the order of the critical sections implies {:?}", expect[t]));
+            cx.oracle_fail(i, "take-metrics-not-linearisable", format!("thread {t}: take_metrics (K) / get_metrics (g) returned Some = {got:?}, the order of the critical sections implies {:?}", expect[t]));
             break;
         }
     }
 }
 
-fn one_free(cx: &mut Ctx, progs: &[Vec<Op>]) {
-    let res = run_history(progs, None);
+/// a free-running history (after the unscheduled prefix `pre`)
+fn one_free(cx: &mut Ctx, pre: &[Op], progs: &[Vec<Op>], tag: &str) {
+    if ABORT.load(Ordering::SeqCst) { return; }
+    let ctxt = format!(" [free-running, {} threads; prefix {} ; programs {}]", progs.len(), clip(&enc_prog(pre), 600), clip(&progs.iter().map(|p| enc_prog(p)).collect::<Vec<_>>().join(" | "), 1500));
+    let res = match run_confirmed(pre, progs, None, false) {
+        Ok(r) => r,
+        Err(_) => {
+            let i = cx.case("GINV 0 - -".into(), "HANG".into(), true);
+            cx.oracle_fail(i, "hang", format!("a free-running history did not finish — twice (limits {:?} and {:?}){ctxt}", Limits::normal().first + Limits::normal().grace, Limits::confirm().first));
+            return;
+        }
+    };
     let s = snap(&res.world.pipeline);
     let mut inserts = 0usize;
     for h in res.world.pool.lock().unwrap().iter() { inserts += h.inserted; }
@@ -742,42 +1069,77 @@ fn one_free(cx: &mut Ctx, progs: &[Vec<Op>]) {
     let req = format!("GINV {inserts} {} {}", dash(s.ids.iter().map(|x| x.to_string()).collect()),
         dash(s.edges.iter().map(|(a, b)| format!("{a}-{b}")).collect()));
     let i = cx.case(req, real.into(), true);
-    cx.count(&format!("free-running:threads={}", progs.len()));
-    cx.count_n("free-running:collects", res.obs.len() as u64);
-    check_oracle(cx, i, &res, &s);
+    cx.count(&format!("{tag}:threads={}", progs.len()));
+    cx.count_n(&format!("{tag}:collects"), res.obs.len() as u64);
+    check_oracle(cx, i, &res, &s, &ctxt);
 }
 
 // ---------------------------------------------------------------------------------------------
 // generators
 
 fn gen_rows(cx: &mut Ctx) -> Vec<(i64, i64)> {
-    let n = *cx.rng.pick(&[0usize, 1, 2, 3, 4, 6]);
-    (0..n).map(|_| (cx.rng.range(0, 2), cx.rng.range(-4, 9))).collect()
+    let n = *cx.rng.pick(&[0usize, 1, 2, 3, 4, 6, 9]);
+    let keys = *cx.rng.pick(&[2i64, 2, 4]);
+    (0..n).map(|_| (cx.rng.range(0, keys), cx.rng.range(-4, 9))).collect()
+}
+fn gen_src(cx: &mut Ctx) -> Op {
+    let rows = gen_rows(cx);
+    let kind = match cx.rng.below(8) {
+        0 | 1 => SrcKind::Custom,
+        2 => SrcKind::Jsonl(1 + cx.rng.below(4)),
+        3 => SrcKind::Csv(1 + cx.rng.below(4)),
+        _ => SrcKind::Vec,
+    };
+    Op::Source(kind, rows)
 }
 fn gen_ref(cx: &mut Ctx) -> Ref {
     let k = cx.rng.below(4);
     match cx.rng.below(5) { 0 | 1 => Ref::Front(k), 2 | 3 => Ref::Back(k), _ => Ref::Mine(k) }
 }
 fn gen_f(cx: &mut Ctx) -> F {
-    match cx.rng.below(6) {
+    match cx.rng.below(12) {
         0 | 1 => F::Add(cx.rng.range(-3, 5)),
         2 => F::Mul(*cx.rng.pick(&[2i64, 3, -1])),
         3 => F::Rekey(cx.rng.range(1, 3)),
-        _ => { let m = cx.rng.range(2, 3); F::Drop(m, cx.rng.range(0, m - 1)) }
+        4 | 5 => { let m = cx.rng.range(2, 3); F::Drop(m, cx.rng.range(0, m - 1)) }
+        6 | 7 => F::Flat(cx.rng.range(1, 4)),
+        8 | 9 => F::Batch(*cx.rng.pick(&[1usize, 2, 3, 64]), cx.rng.range(-2, 3)),
+        10 => F::Xform(cx.rng.range(-2, 3)),
+        _ => F::Tap,
+    }
+}
+fn gen_vf(cx: &mut Ctx) -> VF {
+    match cx.rng.below(3) {
+        0 => VF::Mul(*cx.rng.pick(&[3i64, -1, 5])),
+        1 => VF::Fil(cx.rng.range(0, 1)),
+        _ => VF::Bat(*cx.rng.pick(&[1usize, 2, 5]), *cx.rng.pick(&[3i64, -1])),
     }
 }
 fn gen_jk(cx: &mut Ctx) -> JK { *cx.rng.pick(&[JK::Inner, JK::Left, JK::Right, JK::Full]) }
+fn gen_mode(cx: &mut Ctx) -> Mode {
+    match cx.rng.below(16) {
+        0..=6 => Mode::Seq,
+        7..=9 => Mode::Par(1 + cx.rng.below(5)),
+        10 => Mode::Plain,
+        11 => Mode::SeqSorted,
+        12 => Mode::ParSorted(1 + cx.rng.below(3)),
+        13 => Mode::Threads(1 + cx.rng.below(3)),
+        14 => Mode::CkSeq,
+        _ => Mode::CkPar(1 + cx.rng.below(3)),
+    }
+}
 fn gen_op(cx: &mut Ctx) -> Op {
-    match cx.rng.below(20) {
-        0 | 1 => Op::Source(gen_rows(cx)),
+    match cx.rng.below(24) {
+        0 | 1 => gen_src(cx),
         2..=5 => Op::Derive(gen_ref(cx), gen_f(cx)),
-        6 => Op::Group(gen_ref(cx)),
-        7 | 8 => Op::CombV(gen_ref(cx), cx.rng.range(-1, 2)),
-        9 => Op::CombL(gen_ref(cx), cx.rng.range(-1, 2)),
-        10 => { let r = gen_ref(cx); let b = cx.rng.range(-1, 2); Op::CombG(r, b, *cx.rng.pick(&[None, Some(0), Some(1), Some(2), Some(3)])) }
-        11..=13 => { let k = gen_jk(cx); Op::Join(k, gen_ref(cx), gen_ref(cx)) }
-        14 => if cx.rng.chance(1, 2) { Op::SetM } else { Op::TakeM },
-        _ => { let r = gen_ref(cx); let m = if cx.rng.chance(1, 3) { Some(1 + cx.rng.below(3)) } else { None }; Op::Collect(r, m) }
+        6 | 7 => Op::ValOp(gen_ref(cx), gen_vf(cx)),
+        8 => Op::Group(gen_ref(cx)),
+        9 | 10 => Op::CombV(gen_ref(cx), cx.rng.range(-1, 2)),
+        11 => Op::CombL(gen_ref(cx), cx.rng.range(-1, 2)),
+        12 => { let r = gen_ref(cx); let b = cx.rng.range(-1, 2); Op::CombG(r, b, *cx.rng.pick(&[None, Some(0), Some(1), Some(2), Some(3)]), cx.rng.chance(1, 2)) }
+        13..=15 => { let k = gen_jk(cx); Op::Join(k, gen_ref(cx), gen_ref(cx)) }
+        16 => cx.rng.pick(&[Op::SetM, Op::TakeM, Op::GetM]).clone(),
+        _ => { let r = gen_ref(cx); Op::Collect(r, gen_mode(cx)) }
     }
 }
 
@@ -800,8 +1162,8 @@ fn binom(n: usize, k: usize) -> usize {
 }
 
 /// DEPENDENCE of two atomic steps of different threads, from what each critical section reads/writes:
-/// insert_node R/W next_id + W nodes; connect W edges; snapshot R nodes + edges; record_metrics_* R metrics;
-/// set/take_metrics W metrics; `begin` (harness) R pool; a builder's last step (I, c) W pool (publication).
+/// insert_node R/W next_id + W nodes; connect W edges; snapshot R nodes + edges; record_metrics_* / get_metrics R
+/// metrics; set/take_metrics W metrics; `begin` (harness) R pool; a builder's last step (I, c) W pool (publication).
 /// Two steps that are not dependent commute: swapping them when adjacent gives the same final state and the
 /// same results (every ordered pair of operations — hence of step kinds — is also run under ALL
 /// interleavings in the 1x1 block, where that is observed rather than assumed).
@@ -809,7 +1171,7 @@ fn dependent(x: u8, y: u8) -> bool {
     let ins = |c: u8| c == b'i' || c == b'I';
     let publ = |c: u8| c == b'I' || c == b'c';
     let met_w = |c: u8| c == b'M' || c == b'K';
-    let met = |c: u8| met_w(c) || c == b'm' || c == b'e';
+    let met = |c: u8| met_w(c) || c == b'm' || c == b'e' || c == b'g';
     (ins(x) && ins(y))
         || (ins(x) && y == b's') || (x == b's' && ins(y))
         || (x == b'c' && y == b'c')
@@ -859,11 +1221,132 @@ fn programs(alpha: &[Op], max: usize) -> Vec<Vec<Op>> {
     out
 }
 
-fn src(rows: &[(i64, i64)]) -> Op { Op::Source(rows.to_vec()) }
+fn src(rows: &[(i64, i64)]) -> Op { Op::Source(SrcKind::Vec, rows.to_vec()) }
+fn cseq(r: Ref) -> Op { Op::Collect(r, Mode::Seq) }
+fn cpar(r: Ref, p: usize) -> Op { Op::Collect(r, Mode::Par(p)) }
+
+/// (1b) the builder matrix: EVERY builder copy, derived from a parent of every node kind, with branching — the
+/// parent, the child, a sibling made by the same builder and a grandchild are each collected several times, in both
+/// modes, interleaved — one single-threaded history per (builder, parent shape); and every source kind re-collected
+fn builder_matrix(cx: &mut Ctx) -> usize {
+    let rows = vec![(0i64, 1i64), (1, 2), (0, 4), (1, 5), (2, 8), (2, 3), (0, 6)];
+    // (name, ops that build the parent from the source at pool[0]); the parent is the LAST handle they publish
+    let kv_parents: Vec<(&str, Vec<Op>)> = vec![
+        ("source", vec![]),
+        ("stateless", vec![Op::Derive(Ref::Front(0), F::Add(1))]),
+        ("value-only stateless", vec![Op::ValOp(Ref::Front(0), VF::Mul(3))]),
+        ("per-key barrier", vec![Op::CombV(Ref::Front(0), 1)]),
+        ("global barrier", vec![Op::CombG(Ref::Front(0), 2, Some(2), false)]),
+        ("join", vec![Op::Derive(Ref::Front(0), F::Rekey(2)), Op::Join(JK::Left, Ref::Front(0), Ref::Front(1))]),
+    ];
+    let grouped_parents: Vec<(&str, Vec<Op>)> = vec![
+        ("group_by_key", vec![Op::Group(Ref::Front(0))]),
+        ("stateless over grouped", vec![Op::Group(Ref::Front(0)), Op::Derive(Ref::Back(0), F::Mul(2))]),
+    ];
+    // builders (two parameterisations each: child and sibling); `None` = needs a (k,v) parent, Some(2) = grouped parent
+    let any: Vec<(Op, Op)> = [
+        (F::Add(2), F::Add(5)), (F::Drop(2, 0), F::Drop(3, 1)), (F::Flat(1), F::Flat(3)), (F::Batch(2, 1), F::Batch(64, 4)),
+        (F::Xform(1), F::Xform(-2)), (F::Tap, F::Tap), (F::Rekey(2), F::Mul(3)),
+    ].iter().map(|(a, b)| (Op::Derive(Ref::Back(0), *a), Op::Derive(Ref::Back(1), *b))).collect();
+    let kv_only: Vec<(Op, Op)> = vec![
+        (Op::ValOp(Ref::Back(0), VF::Mul(3)), Op::ValOp(Ref::Back(1), VF::Mul(-1))),
+        (Op::ValOp(Ref::Back(0), VF::Fil(0)), Op::ValOp(Ref::Back(1), VF::Fil(1))),
+        (Op::ValOp(Ref::Back(0), VF::Bat(2, 3)), Op::ValOp(Ref::Back(1), VF::Bat(5, -1))),
+        (Op::Group(Ref::Back(0)), Op::Group(Ref::Back(1))),
+        (Op::CombV(Ref::Back(0), 1), Op::CombV(Ref::Back(1), 4)),
+        (Op::CombG(Ref::Back(0), 1, Some(2), false), Op::CombG(Ref::Back(1), 3, None, false)),
+        (Op::CombG(Ref::Back(0), 1, Some(2), true), Op::CombG(Ref::Back(1), 3, None, true)),
+    ];
+    let mut n = 0;
+    fn with_ref(op: &Op, r: Ref) -> Op {
+        let mut g = op.clone();
+        match &mut g { Op::Derive(x, _) | Op::ValOp(x, _) | Op::Group(x) | Op::CombV(x, _) | Op::CombL(x, _) | Op::CombG(x, ..) => *x = r, _ => {} }
+        g
+    }
+    // `pref`: how the builder names the parent (typed builders resolve among the handles of their class)
+    let run_one = |cx: &mut Ctx, parent: &[Op], child: &Op, sibling: &Op, pref: Option<Ref>, grand: bool| {
+        // pool: 0 source, .., P parent, P+1 child, P+2 sibling, then a grandchild made by the same builder from the child
+        let mut p = vec![src(&rows)];
+        p.extend(parent.iter().cloned());
+        let pi = parent.len();
+        let par = Ref::Front(pi);
+        p.push(with_ref(child, pref.unwrap_or(par)));
+        p.push(with_ref(sibling, pref.unwrap_or(par)));
+        let (ch, sib) = (Ref::Front(pi + 1), Ref::Front(pi + 2));
+        p.extend([cseq(par), cseq(ch), cpar(sib, 2), cpar(par, 3), cpar(ch, 2), cseq(ch), Op::Collect(par, Mode::Plain)]);
+        if grand {
+            p.push(with_ref(child, ch));
+            p.extend([cseq(Ref::Back(0)), cseq(ch), cpar(Ref::Back(0), 2), cseq(par), Op::Collect(sib, Mode::SeqSorted), Op::Collect(ch, Mode::CkSeq)]);
+        }
+        p.extend([cseq(Ref::Front(0)), cpar(Ref::Front(0), 2)]);
+        let plan = vec![0; prog_steps(&p)];
+        one_scheduled(cx, &[p], &plan, "builder-matrix");
+    };
+    for (_, parent) in &kv_parents {
+        let is_join = parent.iter().any(|o| matches!(o, Op::Join(..)));
+        for (c, s) in &any { run_one(cx, parent, c, s, None, true); n += 1; }
+        if !is_join {
+            for (c, s) in &kv_only {
+                // every handle so far is (k,v), so positions in the class-0 pool are positions in the pool;
+                // Group turns (k,v) into grouped: a second Group of the child does not type-check, the others keep (k,v)
+                run_one(cx, parent, c, s, None, !matches!(c, Op::Group(_)));
+                n += 1;
+            }
+        }
+    }
+    for (_, parent) in &grouped_parents {
+        for (c, s) in &any { run_one(cx, parent, c, s, None, true); n += 1; }
+        // the parent is the youngest grouped handle, before and after the (k,v) child exists
+        run_one(cx, parent, &Op::CombL(Ref::Back(0), 1), &Op::CombL(Ref::Back(0), 3), Some(Ref::Back(0)), false);
+        n += 1;
+    }
+    // the four join kinds over every pair of parent shapes (operands with their own lineages), twice each
+    for (_, pa) in &kv_parents {
+        for kind in [JK::Inner, JK::Left, JK::Right, JK::Full] {
+            if pa.iter().any(|o| matches!(o, Op::Join(..))) { continue; }
+            let mut p = vec![src(&rows)];
+            p.extend(pa.iter().cloned());
+            let a = Ref::Front(p.len() - 1);
+            p.push(Op::Derive(Ref::Front(0), F::Rekey(2)));
+            let b = Ref::Front(p.len() - 1);
+            p.push(Op::Join(kind, a, b));
+            let j = Ref::Front(p.len() - 1);
+            p.push(Op::Join(kind, b, a));
+            let j2 = Ref::Front(p.len() - 1);
+            p.extend([cseq(j), cseq(a), cpar(j2, 2), cseq(b), cpar(j, 3), cseq(j2), Op::Derive(j, F::Flat(1)), cseq(Ref::Back(0)), cseq(j)]);
+            let plan = vec![0; prog_steps(&p)];
+            one_scheduled(cx, &[p], &plan, "builder-matrix");
+            n += 1;
+        }
+    }
+    // every source kind: collected twice in each mode, then a child, then the source again (never consumed)
+    for kind in [SrcKind::Vec, SrcKind::Custom, SrcKind::Jsonl(2), SrcKind::Jsonl(100), SrcKind::Csv(3), SrcKind::Csv(1)] {
+        for rws in [rows.clone(), vec![(1, 1)], vec![]] {
+            let p = vec![
+                Op::Source(kind, rws.clone()), cseq(Ref::Front(0)), cseq(Ref::Front(0)), cpar(Ref::Front(0), 2), cpar(Ref::Front(0), 3),
+                Op::Derive(Ref::Front(0), F::Add(1)), cseq(Ref::Back(0)), cseq(Ref::Front(0)), cpar(Ref::Back(0), 2),
+                Op::Source(kind, rws), Op::Join(JK::Full, Ref::Front(0), Ref::Back(0)), cseq(Ref::Back(0)), cpar(Ref::Back(0), 2),
+                cseq(Ref::Front(0)), Op::Collect(Ref::Front(0), Mode::Threads(2)), Op::Collect(Ref::Front(0), Mode::CkPar(2)),
+            ];
+            let plan = vec![0; prog_steps(&p)];
+            one_scheduled(cx, &[p], &plan, "builder-matrix");
+            n += 1;
+        }
+    }
+    n
+}
 
 pub fn run(cx: &mut Ctx) {
+    ABORT.store(false, Ordering::SeqCst);
     ironbeam::verif_hooks::set_yield_callback(Some(Arc::new(|site| yield_here(site))));
     let deep = cx.tier != Tier::Quick;
+    let timing = std::env::var("IBH_C08_TIMING").is_ok();
+    let t_all = Instant::now();
+    let mut t_blk = Instant::now();
+    let mut lap = |name: &str, cx: &Ctx| {
+        if timing { eprintln!("[c08 timing] {name}: {:.2}s ({} cases so far)", t_blk.elapsed().as_secs_f64(), cx.reqs.len()); }
+        t_blk = Instant::now();
+    };
     let base = vec![(0i64, 1i64), (1, 2), (0, 3), (1, 4), (2, 5), (2, 6)];
     // pool after the prefix: 0 = source (k,v) with keys 0,1,2 (two rows each), 1 = map of it that re-keys into {0,1}
     // (so key 2 is unmatched, twice, in every join of the two), 2 = group_by_key of the source (k,Vec v)
@@ -873,21 +1356,21 @@ pub fn run(cx: &mut Ctx) {
     // (1) corpus / design witnesses: sequential re-collection, ancestors after descendants, siblings
     {
         let p0 = vec![
-            src(&base), Op::Derive(Ref::Front(0), F::Mul(2)), Op::Collect(Ref::Front(0), None),
-            Op::Derive(Ref::Front(0), F::Drop(2, 0)), Op::Collect(Ref::Front(0), Some(2)), Op::Collect(Ref::Front(1), None),
-            Op::Join(JK::Inner, Ref::Front(1), Ref::Front(2)), Op::Collect(Ref::Back(0), None), Op::Collect(Ref::Front(0), None),
-            Op::Collect(Ref::Back(0), Some(3)), Op::Source(vec![(0, 9)]), Op::Collect(Ref::Front(2), None),
+            src(&base), Op::Derive(Ref::Front(0), F::Mul(2)), cseq(Ref::Front(0)),
+            Op::Derive(Ref::Front(0), F::Drop(2, 0)), cpar(Ref::Front(0), 2), cseq(Ref::Front(1)),
+            Op::Join(JK::Inner, Ref::Front(1), Ref::Front(2)), cseq(Ref::Back(0)), cseq(Ref::Front(0)),
+            cpar(Ref::Back(0), 3), Op::Source(SrcKind::Vec, vec![(0, 9)]), cseq(Ref::Front(2)),
         ];
         let plan = vec![0; prog_steps(&p0)];
         one_scheduled(cx, &[p0], &plan, "corpus");
         // a collect of the parent racing with a sibling's insert/connect, strictly alternating
-        let a = vec![Op::Derive(Ref::Front(0), F::Mul(3)), Op::Collect(Ref::Mine(0), None)];
-        let b = vec![Op::Collect(Ref::Front(0), None), Op::Collect(Ref::Front(1), Some(2))];
+        let a = vec![Op::Derive(Ref::Front(0), F::Mul(3)), cseq(Ref::Mine(0))];
+        let b = vec![cseq(Ref::Front(0)), cpar(Ref::Front(1), 2)];
         let mut plan = vec![0; pre_steps];
         for _ in 0..8 { plan.push(1); plan.push(2); }
         one_scheduled(cx, &[prefix.clone(), a, b], &plan, "corpus");
         // empty source, join with itself
-        let p1 = vec![Op::Source(vec![]), Op::Join(JK::Inner, Ref::Front(0), Ref::Front(0)), Op::Collect(Ref::Back(0), None), Op::Collect(Ref::Front(0), None)];
+        let p1 = vec![Op::Source(SrcKind::Vec, vec![]), Op::Join(JK::Inner, Ref::Front(0), Ref::Front(0)), cseq(Ref::Back(0)), cseq(Ref::Front(0))];
         let plan = vec![0; prog_steps(&p1)];
         one_scheduled(cx, &[p1], &plan, "corpus");
         // barriers in the middle of lineages: sibling per-key / global / lifted combines of one source, each
@@ -895,15 +1378,15 @@ pub fn run(cx: &mut Ctx) {
         // lineages that contain barriers; everything collected twice
         let p2 = vec![
             src(&[(0, 1), (1, 2), (0, 3), (2, 5)]), Op::CombV(Ref::Front(0), 1), Op::CombV(Ref::Front(0), 2),
-            Op::Collect(Ref::Front(1), None), Op::Collect(Ref::Front(2), Some(2)), Op::Collect(Ref::Front(1), Some(3)),
-            Op::Group(Ref::Front(0)), Op::CombL(Ref::Back(0), 5), Op::Collect(Ref::Back(0), None), Op::Collect(Ref::Back(1), Some(2)),
-            Op::CombG(Ref::Front(1), 7, Some(2)), Op::Collect(Ref::Back(0), Some(4)), Op::Collect(Ref::Front(2), None),
-            Op::Derive(Ref::Back(0), F::Mul(3)), Op::Source(vec![(1, 10), (3, 30)]),
+            cseq(Ref::Front(1)), cpar(Ref::Front(2), 2), cpar(Ref::Front(1), 3),
+            Op::Group(Ref::Front(0)), Op::CombL(Ref::Back(0), 5), cseq(Ref::Back(0)), cpar(Ref::Back(1), 2),
+            Op::CombG(Ref::Front(1), 7, Some(2), false), cpar(Ref::Back(0), 4), cseq(Ref::Front(2)),
+            Op::Derive(Ref::Back(0), F::Mul(3)), Op::Source(SrcKind::Vec, vec![(1, 10), (3, 30)]),
             Op::Join(JK::Left, Ref::Front(1), Ref::Back(0)), Op::Join(JK::Right, Ref::Front(2), Ref::Back(0)),
             Op::Join(JK::Full, Ref::Back(1), Ref::Back(0)), Op::Join(JK::Inner, Ref::Front(1), Ref::Front(2)),
-            Op::Collect(Ref::Back(0), None), Op::Collect(Ref::Back(1), Some(2)), Op::Collect(Ref::Back(2), None), Op::Collect(Ref::Back(3), Some(3)),
-            Op::Derive(Ref::Back(1), F::Rekey(2)), Op::Collect(Ref::Back(0), None), Op::Collect(Ref::Back(2), None),
-            Op::Collect(Ref::Front(1), None), Op::Collect(Ref::Front(0), Some(2)),
+            cseq(Ref::Back(0)), cpar(Ref::Back(1), 2), cseq(Ref::Back(2)), cpar(Ref::Back(3), 3),
+            Op::Derive(Ref::Back(1), F::Rekey(2)), cseq(Ref::Back(0)), cseq(Ref::Back(2)),
+            cseq(Ref::Front(1)), cpar(Ref::Front(0), 2),
         ];
         let plan = vec![0; prog_steps(&p2)];
         one_scheduled(cx, &[p2], &plan, "corpus");
@@ -911,12 +1394,12 @@ pub fn run(cx: &mut Ctx) {
         // sub-chains run without the planner's lifting pass), in both modes, twice
         let p2 = vec![
             src(&[(0, 1), (1, 2), (0, 3), (2, 5)]), Op::Group(Ref::Front(0)), Op::CombL(Ref::Back(0), 1),
-            Op::CombG(Ref::Front(0), 2, Some(2)), Op::Derive(Ref::Front(1), F::Rekey(1)), Op::CombL(Ref::Back(0), 4),
+            Op::CombG(Ref::Front(0), 2, Some(2), true), Op::Derive(Ref::Front(1), F::Rekey(1)), Op::CombL(Ref::Back(0), 4),
             Op::Join(JK::Left, Ref::Front(1), Ref::Front(2)), Op::Join(JK::Full, Ref::Front(2), Ref::Back(0)),
             Op::Join(JK::Right, Ref::Back(0), Ref::Front(1)), Op::Join(JK::Inner, Ref::Front(0), Ref::Front(1)),
-            Op::Collect(Ref::Back(0), None), Op::Collect(Ref::Back(1), Some(2)), Op::Collect(Ref::Back(2), None), Op::Collect(Ref::Back(3), Some(3)),
-            Op::Collect(Ref::Back(3), None), Op::Collect(Ref::Back(2), Some(2)), Op::Collect(Ref::Back(4), None), Op::Collect(Ref::Back(4), Some(2)),
-            Op::Collect(Ref::Front(2), None), Op::Collect(Ref::Front(3), None), Op::Collect(Ref::Front(2), Some(2)),
+            cseq(Ref::Back(0)), cpar(Ref::Back(1), 2), cseq(Ref::Back(2)), cpar(Ref::Back(3), 3),
+            cseq(Ref::Back(3)), cpar(Ref::Back(2), 2), cseq(Ref::Back(4)), cpar(Ref::Back(4), 2),
+            cseq(Ref::Front(2)), cseq(Ref::Front(3)), cpar(Ref::Front(2), 2),
         ];
         let plan = vec![0; prog_steps(&p2)];
         one_scheduled(cx, &[p2], &plan, "corpus");
@@ -925,43 +1408,69 @@ pub fn run(cx: &mut Ctx) {
             src(&[(0, 1), (0, 2), (1, 3), (1, 4), (2, 5)]), src(&[(1, 10), (1, 11), (3, 30), (3, 31), (2, 20)]),
             Op::Join(JK::Inner, Ref::Front(0), Ref::Front(1)), Op::Join(JK::Left, Ref::Front(0), Ref::Front(1)),
             Op::Join(JK::Right, Ref::Front(0), Ref::Front(1)), Op::Join(JK::Full, Ref::Front(0), Ref::Front(1)),
-            Op::Collect(Ref::Front(2), None), Op::Collect(Ref::Front(3), None), Op::Collect(Ref::Front(4), None), Op::Collect(Ref::Front(5), None),
-            Op::Collect(Ref::Front(2), Some(2)), Op::Collect(Ref::Front(3), Some(3)), Op::Collect(Ref::Front(4), Some(2)), Op::Collect(Ref::Front(5), Some(4)),
-            Op::Derive(Ref::Front(4), F::Add(1)), Op::Derive(Ref::Front(5), F::Drop(2, 0)), Op::Collect(Ref::Back(0), None), Op::Collect(Ref::Back(1), None),
+            cseq(Ref::Front(2)), cseq(Ref::Front(3)), cseq(Ref::Front(4)), cseq(Ref::Front(5)),
+            cpar(Ref::Front(2), 2), cpar(Ref::Front(3), 3), cpar(Ref::Front(4), 2), cpar(Ref::Front(5), 4),
+            Op::Derive(Ref::Front(4), F::Add(1)), Op::Derive(Ref::Front(5), F::Drop(2, 0)), cseq(Ref::Back(0)), cseq(Ref::Back(1)),
         ];
         let plan = vec![0; prog_steps(&p3)];
         one_scheduled(cx, &[p3], &plan, "corpus");
-        // set/take_metrics racing a collect, strictly alternating, then the other way round
-        let a = vec![Op::SetM, Op::Collect(Ref::Front(1), None), Op::TakeM, Op::TakeM];
-        let b = vec![Op::Collect(Ref::Front(0), Some(2)), Op::SetM, Op::Collect(Ref::Front(2), None)];
+        // value-only chains (the planner's reorder pass applies to a direct collect, not inside a join), collected
+        // directly, through a join, and again directly
+        let p4 = vec![
+            src(&[(0, 1), (1, 2), (0, 3), (2, 6), (1, 7)]), Op::ValOp(Ref::Front(0), VF::Mul(3)), Op::ValOp(Ref::Back(0), VF::Fil(1)),
+            Op::ValOp(Ref::Back(0), VF::Bat(2, -1)), cseq(Ref::Back(0)), cpar(Ref::Back(0), 2), cseq(Ref::Front(1)), cseq(Ref::Front(2)),
+            Op::Join(JK::Inner, Ref::Front(0), Ref::Back(0)), cseq(Ref::Back(0)), cpar(Ref::Back(0), 2), cseq(Ref::Front(3)),
+            Op::Derive(Ref::Front(3), F::Add(1)), Op::ValOp(Ref::Back(0), VF::Fil(0)), cseq(Ref::Back(0)), cseq(Ref::Front(3)), cseq(Ref::Front(0)),
+        ];
+        let plan = vec![0; prog_steps(&p4)];
+        one_scheduled(cx, &[p4], &plan, "corpus");
+        // set/take/get_metrics racing a collect, strictly alternating, then the other way round
+        let a = vec![Op::SetM, cseq(Ref::Front(1)), Op::GetM, Op::TakeM, Op::TakeM];
+        let b = vec![cpar(Ref::Front(0), 2), Op::SetM, Op::GetM, cseq(Ref::Front(2))];
         for first in [1usize, 2] {
             let mut plan = vec![0; pre_steps];
-            for _ in 0..12 { plan.push(first); plan.push(3 - first); }
+            for _ in 0..14 { plan.push(first); plan.push(3 - first); }
             one_scheduled(cx, &[prefix.clone(), a.clone(), b.clone()], &plan, "corpus");
         }
     }
+    lap("corpus", cx);
+
+    // (1b) every builder copy x every parent node kind, with branching and re-collection
+    let n_matrix = builder_matrix(cx);
+    cx.exhaustive_blocks.push(format!(
+        "builder matrix: {n_matrix} single-threaded histories — each of the 14 derive builders (map, filter, flat_map, map_batches, apply_transform, debug_inspect_with, map_values, filter_values, map_values_batches, group_by_key, combine_values, combine_values_lifted, combine_globally, combine_globally_lifted) from a parent of every node kind (source, stateless, value-only stateless, per-key barrier, global barrier, join result, grouped) with a sibling and a grandchild through the same builder; the 4 join kinds over every pair of parent shapes; the 4 source kinds (from_vec, from_custom_source, read_jsonl_streaming, read_csv_streaming) with 0, 1 and 7 rows; every handle collected at least twice, parents after their children, in several modes"));
+    lap("builder matrix", cx);
 
     // (2a) exhaustive small scope: for every ordered pair of single operations from the alphabet (thread 1
     //      runs the first, thread 2 the second, after the 3-operation prefix), ALL interleavings of their
-    //      atomic steps (no reduction).
+    //      lock steps (no reduction).
     let mut alpha: Vec<Op> = vec![
-        Op::Source(vec![(0, 7), (1, 8)]),
+        Op::Source(SrcKind::Vec, vec![(0, 7), (1, 8)]),
+        Op::Source(SrcKind::Custom, vec![(1, 7), (1, 9)]),
         Op::Derive(Ref::Front(0), F::Mul(2)),
+        Op::Derive(Ref::Back(0), F::Xform(1)),
+        Op::ValOp(Ref::Back(0), VF::Bat(2, 3)),
         Op::Group(Ref::Front(1)),
         Op::CombV(Ref::Front(0), 1),
         Op::CombL(Ref::Back(0), 2),
-        Op::CombG(Ref::Back(1), 3, Some(2)),
+        Op::CombG(Ref::Back(1), 3, Some(2), false),
         Op::Join(JK::Inner, Ref::Front(0), Ref::Back(0)),
-        Op::Join(JK::Full, Ref::Back(0), Ref::Front(0)),
-        Op::Collect(Ref::Front(0), None),
-        Op::Collect(Ref::Back(0), Some(2)),
+        cseq(Ref::Front(0)),
+        cpar(Ref::Back(0), 2),
         Op::SetM,
         Op::TakeM,
+        Op::GetM,
     ];
     if deep {
         alpha.extend([
+            Op::Join(JK::Full, Ref::Back(0), Ref::Front(0)),
             Op::Join(JK::Left, Ref::Front(1), Ref::Back(0)),
-            Op::Join(JK::Right, Ref::Back(0), Ref::Back(1)),
+            Op::Source(SrcKind::Jsonl(1), vec![(0, 1), (1, 1)]),
+            Op::Derive(Ref::Back(0), F::Flat(1)),
+            Op::Derive(Ref::Back(1), F::Tap),
+            Op::ValOp(Ref::Back(0), VF::Fil(0)),
+            Op::CombG(Ref::Front(0), 1, None, true),
+            Op::Collect(Ref::Front(1), Mode::CkSeq),
         ]);
     }
     let mut n_sched = 0usize;
@@ -976,24 +1485,27 @@ pub fn run(cx: &mut Ctx) {
     cx.exhaustive_blocks.push(format!(
         "2 worker threads x 1 operation each: all {} ordered pairs over a {}-operation alphabet ({}) after a 3-operation prefix (source, map, group_by_key), ALL interleavings of their lock-granular steps ({n_sched} schedules)",
         alpha.len() * alpha.len(), alpha.len(), alpha.iter().map(enc_op).collect::<Vec<_>>().join(" ")));
+    lap("2a", cx);
 
     // (2b) 2 worker threads x up to 3 operations each (quick tier: up to 2): for EVERY ordered pair of programs
     //      over a per-thread alphabet, one schedule of EVERY Mazurkiewicz trace (every interleaving is
     //      equivalent, by swapping adjacent independent steps — see `dependent` — to exactly one of them).
     let max_ops = if deep { 3 } else { 2 };
     let configs: Vec<(&str, Vec<Op>, Vec<Op>, usize)> = vec![
-        ("sibling barrier vs chain", vec![Op::CombV(Ref::Front(0), 1), Op::Collect(Ref::Mine(0), None)],
-            vec![Op::Derive(Ref::Mine(0), F::Add(2)), Op::Collect(Ref::Mine(0), Some(2))], max_ops),
-        ("group vs global combine", vec![Op::Group(Ref::Front(0)), Op::Collect(Ref::Back(0), None)],
-            vec![Op::CombG(Ref::Front(1), 2, Some(2)), Op::Collect(Ref::Front(0), None)], max_ops),
-        ("lifted combine vs per-key combine", vec![Op::CombL(Ref::Front(0), 1), Op::Collect(Ref::Mine(0), Some(3))],
-            vec![Op::CombV(Ref::Back(0), 2), Op::Collect(Ref::Back(0), None)], 2),
-        ("metrics vs collect", vec![Op::SetM, Op::TakeM, Op::Collect(Ref::Front(1), None)],
-            vec![Op::Collect(Ref::Front(0), Some(2)), Op::TakeM], max_ops),
-        ("join vs join", vec![Op::Join(JK::Left, Ref::Front(0), Ref::Mine(0)), Op::Collect(Ref::Mine(0), None)],
-            vec![Op::Join(JK::Full, Ref::Mine(0), Ref::Front(1)), Op::Collect(Ref::Back(0), None)], if deep { 2 } else { 1 }),
-        ("join over barriers vs chain", vec![Op::Join(JK::Right, Ref::Front(1), Ref::Front(0)), Op::CombV(Ref::Front(1), 1), Op::Collect(Ref::Mine(0), None)],
-            vec![Op::Derive(Ref::Mine(0), F::Mul(2)), Op::Collect(Ref::Back(0), None)], if deep { 2 } else { 1 }),
+        ("sibling barrier vs chain", vec![Op::CombV(Ref::Front(0), 1), cseq(Ref::Mine(0))],
+            vec![Op::Derive(Ref::Mine(0), F::Add(2)), cpar(Ref::Mine(0), 2)], max_ops),
+        ("group vs global combine", vec![Op::Group(Ref::Front(0)), cseq(Ref::Back(0))],
+            vec![Op::CombG(Ref::Front(1), 2, Some(2), false), cseq(Ref::Front(0))], max_ops),
+        ("lifted combine vs per-key combine", vec![Op::CombL(Ref::Front(0), 1), cpar(Ref::Mine(0), 3)],
+            vec![Op::CombV(Ref::Back(0), 2), cseq(Ref::Back(0))], 2),
+        ("metrics vs collect", vec![Op::SetM, Op::TakeM, Op::GetM],
+            vec![cpar(Ref::Front(0), 2), Op::TakeM], max_ops),
+        ("value-only / batch builders vs collects", vec![Op::ValOp(Ref::Front(0), VF::Mul(3)), Op::Collect(Ref::Mine(0), Mode::Plain)],
+            vec![Op::Derive(Ref::Mine(0), F::Batch(2, 1)), Op::ValOp(Ref::Back(0), VF::Fil(0)), cpar(Ref::Back(0), 2)], 2),
+        ("join vs join", vec![Op::Join(JK::Left, Ref::Front(0), Ref::Mine(0)), cseq(Ref::Mine(0))],
+            vec![Op::Join(JK::Full, Ref::Mine(0), Ref::Front(1)), cseq(Ref::Back(0))], if deep { 2 } else { 1 }),
+        ("join over barriers vs chain", vec![Op::Join(JK::Right, Ref::Front(1), Ref::Front(0)), Op::CombV(Ref::Front(1), 1), cseq(Ref::Mine(0))],
+            vec![Op::Derive(Ref::Mine(0), F::Mul(2)), cseq(Ref::Back(0))], if deep { 2 } else { 1 }),
     ];
     for (name, al1, al2, max) in &configs {
         let (p1s, p2s) = (programs(al1, *max), programs(al2, *max));
@@ -1012,23 +1524,28 @@ pub fn run(cx: &mut Ctx) {
             "2 worker threads x 1..{max} operations each ({name}): thread 1 over {{{}}}, thread 2 over {{{}}}, all {} ordered pairs of programs, one schedule per Mazurkiewicz trace = every interleaving up to swaps of independent steps ({n_tr} schedules standing for {n_full} interleavings)",
             al1.iter().map(enc_op).collect::<Vec<_>>().join(" "), al2.iter().map(enc_op).collect::<Vec<_>>().join(" "), p1s.len() * p2s.len()));
     }
+    lap("2b", cx);
 
     // (2c) selected multi-operation pairs, all interleavings (up to a cap), no reduction
     let multi: Vec<(Vec<Op>, Vec<Op>)> = vec![
-        (vec![Op::Derive(Ref::Front(0), F::Mul(2)), Op::Collect(Ref::Mine(0), None)], vec![Op::Derive(Ref::Back(0), F::Add(5))]),
-        (vec![Op::Derive(Ref::Front(0), F::Mul(2)), Op::Collect(Ref::Front(0), None)], vec![Op::Collect(Ref::Front(0), Some(2))]),
-        (vec![Op::Join(JK::Inner, Ref::Front(0), Ref::Front(1)), Op::Collect(Ref::Mine(0), None)], vec![Op::Derive(Ref::Front(1), F::Rekey(2))]),
-        (vec![Op::Source(vec![(1, 1)]), Op::Collect(Ref::Back(0), None)], vec![Op::Derive(Ref::Back(0), F::Drop(2, 1)), Op::Collect(Ref::Mine(0), None)]),
-        (vec![Op::Derive(Ref::Front(0), F::Add(2)), Op::Derive(Ref::Mine(0), F::Mul(3)), Op::Collect(Ref::Mine(1), None)], vec![Op::Collect(Ref::Back(0), None)]),
+        (vec![Op::Derive(Ref::Front(0), F::Mul(2)), cseq(Ref::Mine(0))], vec![Op::Derive(Ref::Back(0), F::Add(5))]),
+        (vec![Op::Derive(Ref::Front(0), F::Mul(2)), cseq(Ref::Front(0))], vec![cpar(Ref::Front(0), 2)]),
+        (vec![Op::Join(JK::Inner, Ref::Front(0), Ref::Front(1)), cseq(Ref::Mine(0))], vec![Op::Derive(Ref::Front(1), F::Rekey(2))]),
+        (vec![Op::Source(SrcKind::Custom, vec![(1, 1)]), cseq(Ref::Back(0))], vec![Op::Derive(Ref::Back(0), F::Drop(2, 1)), cseq(Ref::Mine(0))]),
+        (vec![Op::Derive(Ref::Front(0), F::Add(2)), Op::Derive(Ref::Mine(0), F::Mul(3)), cseq(Ref::Mine(1))], vec![cseq(Ref::Back(0))]),
         (vec![Op::Join(JK::Left, Ref::Front(0), Ref::Back(0))], vec![Op::Join(JK::Right, Ref::Back(0), Ref::Front(0))]),
-        (vec![Op::CombV(Ref::Front(0), 2), Op::Collect(Ref::Mine(0), None)], vec![Op::CombG(Ref::Front(0), 3, None), Op::Collect(Ref::Mine(0), None)]),
-        (vec![Op::Derive(Ref::Front(0), F::Mul(2)), Op::CombV(Ref::Mine(0), 1), Op::Collect(Ref::Mine(0), None)],
-         vec![Op::Derive(Ref::Back(0), F::Add(3)), Op::Join(JK::Full, Ref::Front(0), Ref::Mine(0)), Op::Collect(Ref::Front(1), None)]),
+        (vec![Op::CombV(Ref::Front(0), 2), cseq(Ref::Mine(0))], vec![Op::CombG(Ref::Front(0), 3, None, true), cseq(Ref::Mine(0))]),
+        // a join built over operands that are being built by the other thread, then COLLECTED (both copies of the back-walk)
+        (vec![Op::Derive(Ref::Front(0), F::Flat(2)), Op::Join(JK::Inner, Ref::Front(0), Ref::Back(0)), cseq(Ref::Mine(0))],
+         vec![Op::ValOp(Ref::Front(1), VF::Mul(3)), cseq(Ref::Back(0))]),
+        (vec![Op::Derive(Ref::Front(0), F::Mul(2)), Op::CombV(Ref::Mine(0), 1), cseq(Ref::Mine(0))],
+         vec![Op::Derive(Ref::Back(0), F::Add(3)), Op::Join(JK::Full, Ref::Front(0), Ref::Mine(0)), cseq(Ref::Mine(0))]),
     ];
     let cap = cx.budget(400, 4000);
     let mut n_multi = 0usize;
     let mut capped = 0usize;
     for (a, b) in &multi {
+        let t_pair = Instant::now();
         let (sa, sb) = (prog_steps(a), prog_steps(b));
         let total = binom(sa + sb, sa);
         if total <= cap {
@@ -1047,17 +1564,50 @@ pub fn run(cx: &mut Ctx) {
                 one_scheduled(cx, &[prefix.clone(), a.clone(), b.clone()], &plan, "sampled-multi");
             }
         }
+        if timing { eprintln!("[c08 timing]   2c pair {} || {}: {:.2}s", enc_prog(a), enc_prog(b), t_pair.elapsed().as_secs_f64()); }
     }
     cx.exhaustive_blocks.push(format!(
         "{} hand-picked pairs of 1-3-operation programs: ALL interleavings where there are at most {cap} ({n_multi} schedules); {capped} larger pairs sampled uniformly ({cap} schedules each)",
         multi.len()));
+    lap("2c", cx);
+
+    // (2d) FINE: two collects whose EXECUTIONS are interleaved node by node (the scheduler also stops at the stage
+    //      boundaries of exec_seq / exec_par): all interleavings of the two operations' lock + stage steps
+    let fprefix = vec![src(&base), Op::Derive(Ref::Front(0), F::Rekey(2)), Op::CombV(Ref::Front(0), 1), Op::Join(JK::Inner, Ref::Front(0), Ref::Front(1))];
+    let fpre = prog_steps(&fprefix);
+    let mut fpairs: Vec<(Op, Op)> = vec![(cseq(Ref::Front(1)), cpar(Ref::Front(1), 2))];
+    if deep {
+        fpairs.extend([
+            (cseq(Ref::Front(3)), cseq(Ref::Front(2))), (cpar(Ref::Front(3), 2), cseq(Ref::Front(1))),
+            (cseq(Ref::Front(2)), cpar(Ref::Front(2), 3)), (cpar(Ref::Front(1), 2), cpar(Ref::Front(1), 3)),
+            (cseq(Ref::Front(0)), Op::Collect(Ref::Front(0), Mode::Plain)),
+        ]);
+    }
+    let mut n_fine = 0usize;
+    for (a, b) in &fpairs {
+        // how many steps (lock + stage) each collect takes: measured by a solo run
+        let measure = |op: &Op| -> Option<usize> {
+            let plan = vec![0; fpre];
+            let r = run_confirmed(&[], &[fprefix.clone(), vec![op.clone()]], Some(&plan), true).ok()?;
+            Some(r.trace.as_ref()?.iter().filter(|s| s.tid == 1).count())
+        };
+        let (Some(sa), Some(sb)) = (measure(a), measure(b)) else { continue };
+        for plan in interleavings(fpre, sa, sb) {
+            one_sched(cx, &[fprefix.clone(), vec![a.clone()], vec![b.clone()]], &plan, "exhaustive-fine", true);
+            n_fine += 1;
+        }
+    }
+    cx.exhaustive_blocks.push(format!(
+        "FINE: {} pairs of collects ({}) after a 4-operation prefix (source, map, combine_values, join): ALL interleavings of their lock steps AND the stage boundaries of their executions ({n_fine} schedules; two runs interleaved node by node)",
+        fpairs.len(), fpairs.iter().map(|(a, b)| format!("{} || {}", enc_op(a), enc_op(b))).collect::<Vec<_>>().join(", ")));
+    lap("2d fine", cx);
 
     // (3) random: 2..4 worker threads x <= 6 operations, random schedules with varying burstiness
-    let rounds = cx.budget(400, 8000);
+    let rounds = cx.budget(300, 8000);
     for _ in 0..rounds {
         let workers = 2 + cx.rng.below(3);
         let mut progs = vec![];
-        let mut pre = vec![Op::Source(gen_rows(cx))];
+        let mut pre = vec![gen_src(cx)];
         if cx.rng.chance(1, 3) { pre.push(Op::SetM); }
         for _ in 0..cx.rng.below(3) { pre.push(gen_op(cx)); }
         progs.push(pre);
@@ -1082,34 +1632,100 @@ pub fn run(cx: &mut Ctx) {
         }
         one_scheduled(cx, &progs, &plan, "random");
     }
+    lap("3 random", cx);
+
+    // (3f) random FINE: 2..3 workers that mostly collect, the schedule also switches at stage boundaries
+    let rounds = cx.budget(150, 3000);
+    for _ in 0..rounds {
+        let workers = 2 + cx.rng.below(2);
+        let mut pre = vec![gen_src(cx)];
+        for _ in 0..(2 + cx.rng.below(4)) {
+            let mut o = gen_op(cx);
+            while matches!(o, Op::Collect(..)) { o = gen_op(cx); }
+            pre.push(o);
+        }
+        let mut progs = vec![pre];
+        for _ in 0..workers {
+            let len = 1 + cx.rng.below(3);
+            progs.push((0..len).map(|_| if cx.rng.chance(7, 10) { let r = gen_ref(cx); Op::Collect(r, gen_mode(cx)) } else { gen_op(cx) }).collect::<Vec<_>>());
+        }
+        let mut plan = vec![0; prog_steps(&progs[0])];
+        let stick = cx.rng.below(3);
+        let mut cur = 1;
+        for _ in 0..120 {
+            if cx.rng.below(stick + 1) == 0 { cur = 1 + cx.rng.below(workers); }
+            plan.push(cur);
+        }
+        one_sched(cx, &progs, &plan, "random-fine", true);
+    }
+    lap("3f random fine", cx);
 
     // (4) free-running: no scheduler, real concurrency (what the cooperative runs cannot show: a critical
     //     section that was split in two). Many short builders racing, then collects.
     ironbeam::verif_hooks::set_yield_callback(None);
-    let rounds = cx.budget(60, 1200);
+    let rounds = cx.budget(40, 1200);
     for r in 0..rounds {
         let workers = 2 + cx.rng.below(3);
         let mut progs = vec![];
         for _ in 0..workers {
-            let mut p = vec![Op::Source(gen_rows(cx))];
+            let mut p = vec![gen_src(cx)];
             let len = if r % 3 == 0 { 40 } else { 6 + cx.rng.below(10) };
             for _ in 0..len {
-                p.push(match cx.rng.below(16) {
-                    0 | 1 => Op::Source(gen_rows(cx)),
-                    2..=6 => Op::Derive(gen_ref(cx), F::Add(cx.rng.range(-2, 2))),
+                p.push(match cx.rng.below(18) {
+                    0 | 1 => gen_src(cx),
+                    2..=5 => Op::Derive(gen_ref(cx), gen_f(cx)),
+                    6 => Op::ValOp(gen_ref(cx), gen_vf(cx)),
                     7 => Op::Group(gen_ref(cx)),
                     8 => Op::CombV(gen_ref(cx), cx.rng.range(-1, 1)),
                     9 => Op::CombL(gen_ref(cx), cx.rng.range(-1, 1)),
-                    10 => { let r = gen_ref(cx); Op::CombG(r, 1, *cx.rng.pick(&[None, Some(2)])) }
+                    10 => { let r = gen_ref(cx); Op::CombG(r, 1, *cx.rng.pick(&[None, Some(2)]), cx.rng.chance(1, 2)) }
                     11 | 12 => { let k = gen_jk(cx); Op::Join(k, gen_ref(cx), gen_ref(cx)) }
-                    13 => if cx.rng.chance(1, 2) { Op::SetM } else { Op::TakeM },
-                    _ => { let r = gen_ref(cx); let m = if cx.rng.chance(1, 4) { Some(2) } else { None }; Op::Collect(r, m) }
+                    13 => cx.rng.pick(&[Op::SetM, Op::TakeM, Op::GetM]).clone(),
+                    _ => { let r = gen_ref(cx); Op::Collect(r, gen_mode(cx)) }
                 });
             }
             progs.push(p);
         }
-        one_free(cx, &progs);
+        one_free(cx, &[], &progs, "free-running");
     }
-    cx.notes.push("free-running cases are truly concurrent: their request lines (the snapshot) depend on the OS schedule, their verdicts do not".into());
-    cx.notes.push("block 2b relies on the stated dependence relation between lock sites (which fields a critical section reads/writes); blocks 2a/2c/3 do not".into());
+    lap("4 free-running", cx);
+
+    // (4b) OVERLAPPING EXECUTIONS: a graph built by one thread over sources of 10^4 rows, then 4 threads behind a
+    //      start barrier that only collect — the same and sibling handles, sequentially and in parallel — so that
+    //      many executions (incl. parallel ones on the shared rayon pool) are in flight at the same time
+    let rounds = cx.budget(12, 80);
+    for _ in 0..rounds {
+        let n_big = if deep { *cx.rng.pick(&[10_000usize, 30_000, 100_000]) } else { 12_000 };
+        let off = cx.rng.range(0, 5);
+        let big: Vec<KV> = (0..n_big as i64).map(|i| (i % 7, i + off)).collect();
+        let mid: Vec<KV> = (0..4000i64).map(|i| (i % 5, 2 * i + off)).collect();
+        let pre = vec![
+            Op::Source(SrcKind::Vec, big), Op::Source(SrcKind::Custom, mid.clone()), Op::Source(SrcKind::Jsonl(700), mid),
+            Op::Derive(Ref::Front(0), F::Add(1)), Op::Derive(Ref::Front(0), F::Drop(3, 0)), Op::Derive(Ref::Front(3), F::Flat(2)),
+            Op::Derive(Ref::Front(0), F::Batch(64, 2)), Op::ValOp(Ref::Front(0), VF::Mul(3)), Op::ValOp(Ref::Front(7), VF::Fil(0)),
+            Op::CombV(Ref::Front(0), 1), Op::CombG(Ref::Front(4), 1, Some(2), false), Op::Derive(Ref::Front(1), F::Xform(1)),
+            Op::Join(JK::Inner, Ref::Front(9), Ref::Front(10)), Op::Group(Ref::Front(2)), Op::CombL(Ref::Back(0), 2),
+        ];
+        let mut progs = vec![];
+        for _ in 0..4 {
+            progs.push((0..6).map(|_| {
+                let h = Ref::Front(cx.rng.below(pre.len()));
+                let m = match cx.rng.below(8) { 0 | 1 => Mode::Seq, 2 => Mode::Plain, 3 => Mode::ParSorted(4), _ => Mode::Par(2 + cx.rng.below(7)) };
+                Op::Collect(h, m)
+            }).collect::<Vec<_>>());
+        }
+        one_free(cx, &pre, &progs, "overlapping-collects");
+    }
+    lap("4b overlapping collects", cx);
+
+    let stalls = STALLS.load(Ordering::SeqCst);
+    let unconf = UNCONFIRMED_HANGS.load(Ordering::SeqCst);
+    if stalls > 0 { cx.notes.push(format!("{stalls} scheduler steps / free-running histories took longer than the first limit and completed within the grace period (machine stall; judged normally)")); }
+    if unconf > 0 { cx.notes.push(format!("{unconf} histories did not come back within the first limits and completed when re-executed from scratch (machine stall, NOT reported as a hang)")); }
+    if ABORT.load(Ordering::SeqCst) { cx.notes.push("a history hung twice (see the oracle failure `hang`); the remaining blocks were not generated".into()); }
+    cx.notes.push("free-running cases are truly concurrent: their request lines (the snapshot) depend on the OS schedule, their verdicts do not; an oracle failure of such a case carries its programs in the detail".into());
+    cx.notes.push("block 2b relies on the stated dependence relation between lock sites (which fields a critical section reads/writes); blocks 2a/2c/2d/3 do not".into());
+    cx.notes.push("how often a collect calls a user function is compared with the model (field U=) only; the oracle demands no call during build steps and the lineage's value".into());
+    if timing { eprintln!("[c08 timing] total {:.2}s", t_all.elapsed().as_secs_f64()); }
+    let _ = std::fs::remove_dir_all(scratch());
 }
